@@ -71,8 +71,9 @@ Qed.
 Section VT.
 Variable te : tenv.
 Variable ftab : string -> option ty.
-Notation vwf := (vwf te ftab).
-Notation has_ty := (has_ty te ftab).
+Variable nn : bool.
+Notation vwf := (vwf te ftab nn).
+Notation has_ty := (has_ty te ftab nn).
 
 Lemma vwf_arr e l : vwf (VArr e l) <-> Forall (fun x => vwf x /\ fits x e) l.
 Proof.
@@ -193,11 +194,11 @@ Proof.
 Qed.
 
 Lemma inv_ptr_struct v sn : has_ty v (TPtr (TStruct sn)) ->
-  (exists fields, v = VStruct sn true fields) \/ v = VNilPtr (TStruct sn).
+  (exists fields, v = VStruct sn true fields) \/ (v = VNilPtr (TStruct sn) /\ nn = false).
 Proof.
   intros [W [H|H]]; [discriminate|]. destruct v; cbn in H; try discriminate.
   - destruct ptr; inversion H; subst. left. eauto.
-  - inversion H; subst. right. reflexivity.
+  - inversion H; subst. right. split; [reflexivity|exact W].
   - destruct W as [_ W]. subst t. discriminate.
 Qed.
 
@@ -225,9 +226,9 @@ Proof.
   intros x [A B]. split; assumption.
 Qed.
 
-Lemma ty_zero t : zero_ok t = true -> has_ty (zero_of t) t.
+Lemma ty_zero t : zero_ok nn t = true -> has_ty (zero_of t) t.
 Proof.
-  destruct t; try discriminate; intros _; cbn [zero_of].
+  destruct t; try discriminate; intros Hz; cbn [zero_of].
   - apply ty_bool.
   - destruct (is_float k) eqn:E.
     + apply (ty_num (NFlt k 0%float)). exact E.
@@ -236,7 +237,7 @@ Proof.
   - split; [exact I|left; reflexivity].
   - split; [exact I|right; reflexivity].
   - split; [exact I|right; reflexivity].
-  - split; [exact I|right; reflexivity].
+  - split; [|right; reflexivity]. destruct t; try exact I. cbn in Hz. apply negb_true_iff in Hz. exact Hz.
 Qed.
 End VT.
 
@@ -432,8 +433,9 @@ Proof. destruct t; try discriminate; reflexivity. Qed.
 Section Prims.
 Variable te : tenv.
 Variable ftab : string -> option ty.
-Notation vwf := (Sound.vwf te ftab).
-Notation has_ty := (Sound.has_ty te ftab).
+Variable nn : bool.
+Notation vwf := (Sound.vwf te ftab nn).
+Notation has_ty := (Sound.has_ty te ftab nn).
 
 Lemma index_list_ok e l n : Forall (fun x => has_ty x e) l -> out_ok (fun r => has_ty r e) (index_list l n).
 Proof.
@@ -445,8 +447,8 @@ Qed.
 Lemma fetch_slice v vi e k ns : has_ty v (TSlice e) -> has_ty vi (TNum k) ->
   out_ok (fun r => has_ty r e) (p_fetch v vi ns).
 Proof.
-  intros Hv Hi. destruct (inv_num _ _ _ _ Hi) as (n & -> & _ & _).
-  destruct (inv_slice _ _ _ _ Hv) as [(l & -> & Hl)| ->]; cbn [p_fetch].
+  intros Hv Hi. destruct (inv_num _ _ _ _ _ Hi) as (n & -> & _ & _).
+  destruct (inv_slice _ _ _ _ _ Hv) as [(l & -> & Hl)| ->]; cbn [p_fetch].
   - eapply out_bind; [apply to_int_ok|]. intros z _. apply index_list_ok. exact Hl.
   - eapply out_bind; [apply to_int_ok|]. intros z _. reflexivity.
 Qed.
@@ -461,14 +463,14 @@ Qed.
 Lemma key_dyn vi kt : s_key kt = true -> has_ty vi kt -> dyn_type vi = kt /\ vi <> VNil.
 Proof.
   intros Hk Hi. assert (kt <> TIface) as N by (intros ->; discriminate).
-  split; [exact (has_ty_dyn _ _ _ _ Hi N)|]. intros ->. pose proof (has_ty_dyn _ _ _ _ Hi N) as D. cbn in D. subst kt. discriminate.
+  split; [exact (has_ty_dyn _ _ _ _ _ Hi N)|]. intros ->. pose proof (has_ty_dyn _ _ _ _ _ Hi N) as D. cbn in D. subst kt. discriminate.
 Qed.
 
-Lemma fetch_map v vi kt et ns : has_ty v (TMap kt et) -> has_ty vi kt -> s_key kt = true -> zero_ok et = true ->
+Lemma fetch_map v vi kt et ns : has_ty v (TMap kt et) -> has_ty vi kt -> s_key kt = true -> zero_ok nn et = true ->
   out_ok (fun r => has_ty r et) (p_fetch v vi ns).
 Proof.
   intros Hv Hi Hk Hz. destruct (key_dyn _ _ Hk Hi) as [D _].
-  destruct (inv_map _ _ _ _ _ Hv) as [(m & -> & Hm)| ->]; cbn [p_fetch]; apply match_nil_elim; try reflexivity;
+  destruct (inv_map _ _ _ _ _ _ Hv) as [(m & -> & Hm)| ->]; cbn [p_fetch]; apply match_nil_elim; try reflexivity;
     rewrite D, assignable_self.
   - destruct (assoc_val vi m) as [x|] eqn:E; cbn.
     + destruct (assoc_val_in _ _ _ E) as [k' Hin]. exact (proj2 (proj1 (Forall_forall _ _) Hm _ Hin)).
@@ -480,19 +482,19 @@ Lemma fetch_member sn b fields name pth ft ns :
   vwf (VStruct sn b fields) -> go_resolve_field te sn name = RField pth ft true ->
   exists x, p_fetch (VStruct sn b fields) (VStr name) ns = Ok x /\ has_ty x ft.
 Proof.
-  intros W R. destruct (struct_member _ _ _ _ _ _ _ _ W R) as (x & E & Hx).
+  intros W R. destruct (struct_member _ _ _ _ _ _ _ _ _ W R) as (x & E & Hx).
   exists x. cbn [p_fetch]. rewrite E. auto.
 Qed.
 
 Lemma slice_ok v vf vt t kf kt : sc_sliceable t = true -> has_ty v t -> has_ty vf (TNum kf) -> has_ty vt (TNum kt) ->
   out_ok (fun r => has_ty r t) (p_slice v vf vt).
 Proof.
-  intros Hs Hv Hf Ht. destruct (inv_num _ _ _ _ Hf) as (nf & -> & _ & _). destruct (inv_num _ _ _ _ Ht) as (nt & -> & _ & _).
+  intros Hs Hv Hf Ht. destruct (inv_num _ _ _ _ _ Hf) as (nf & -> & _ & _). destruct (inv_num _ _ _ _ _ Ht) as (nt & -> & _ & _).
   destruct t; try discriminate.
-  - destruct (inv_str _ _ _ Hv) as [s0 ->]. cbn [p_slice].
+  - destruct (inv_str _ _ _ _ Hv) as [s0 ->]. cbn [p_slice].
     eapply out_bind; [apply to_int_ok|]. intros a _. eapply out_bind; [apply to_int_ok|]. intros b _.
     destruct (clamp_slice (str_len s0) a b) as [a' b']. destruct (a' <? 0)%Z; cbn; [reflexivity|apply ty_str].
-  - destruct (inv_slice _ _ _ _ Hv) as [(l & -> & Hl)| ->]; cbn [p_slice];
+  - destruct (inv_slice _ _ _ _ _ Hv) as [(l & -> & Hl)| ->]; cbn [p_slice];
       (eapply out_bind; [apply to_int_ok|]; intros a _; eapply out_bind; [apply to_int_ok|]; intros b _).
     + destruct (clamp_slice (Z.of_nat (List.length l)) a b) as [a' b']. destruct (a' <? 0)%Z; cbn; [reflexivity|].
       apply ty_arr. apply Forall_firstn. apply Forall_skipn. exact Hl.
@@ -502,42 +504,80 @@ Qed.
 Lemma length_ok v t : sc_len t = true -> has_ty v t -> exists n, p_length v = Ok n.
 Proof.
   intros Hs Hv. destruct t; try discriminate.
-  - destruct (inv_str _ _ _ Hv) as [s0 ->]. cbn. eauto.
-  - destruct (inv_slice _ _ _ _ Hv) as [(l & -> & _)| ->]; cbn; eauto.
-  - destruct (inv_map _ _ _ _ _ Hv) as [(m & -> & _)| ->]; cbn; eauto.
+  - destruct (inv_str _ _ _ _ Hv) as [s0 ->]. cbn. eauto.
+  - destruct (inv_slice _ _ _ _ _ Hv) as [(l & -> & _)| ->]; cbn; eauto.
+  - destruct (inv_map _ _ _ _ _ _ Hv) as [(m & -> & _)| ->]; cbn; eauto.
+Qed.
+
+(* `equal` of vm/runtime.go never fails for a type reason on well-formed values *)
+Lemma equal_v_ok : forall a, vwf a -> forall b, vwf b -> out_ok (fun _ : bool => True) (equal_v a b).
+Proof.
+  fix IH 1. intros a Wa b Wb.
+  destruct a as [|bb|n|s|e l|e|kt et m|nm p fs|t|kt et|id t|nm x|d]; try (destruct b; exact I).
+  - (* numbers *)
+    destruct b; try exact I. cbn [equal_v]. cbn in Wa, Wb.
+    destruct (helper_cmp HEqual n n0 eq_refl Wa Wb) as [[r E]|E]; rewrite E; cbn; auto.
+  - (* slices: element-wise *)
+    assert (Wl : Forall (fun x => vwf x) l).
+    { apply vwf_arr in Wa. eapply Forall_impl; [|exact Wa]. intros x [A _]. exact A. }
+    assert (L : forall l2, Forall (fun y => vwf y) l2 ->
+      out_ok (fun _ : bool => True)
+        ((fix seq_eq (l1 l2 : list value) {struct l1} : outcome bool :=
+            match l1, l2 with
+            | [], [] => Ok true
+            | x :: r1, y :: r2 => match equal_v x y with Ok true => seq_eq r1 r2 | other => other end
+            | _, _ => Ok false
+            end) l l2)).
+    { clear Wa. induction l as [|x r IHl]; intros l2 W2.
+      - destruct l2; exact I.
+      - destruct l2 as [|y r2]; [exact I|]. inversion Wl; subst. inversion W2; subst.
+        pose proof (IH x ltac:(assumption) y ltac:(assumption)) as P.
+        destruct (equal_v x y) as [[|]|er]; cbn in *; [apply IHl; assumption|exact I|exact P]. }
+    destruct b; try exact I.
+    + cbn [equal_v is_nil andb seq_items].
+      destruct (Nat.eqb (List.length l) (List.length l0)); [|exact I].
+      apply L. apply vwf_arr in Wb. eapply Forall_impl; [|exact Wb]. intros x [A _]. exact A.
+    + cbn [equal_v is_nil andb seq_items].
+      destruct (Nat.eqb (List.length l) (List.length (@nil value))); [|exact I]. apply L. constructor.
+Qed.
+
+Lemma equal_ok x y : vwf x -> vwf y -> out_ok (fun v => exists b, v = VBool b) (p_equal x y).
+Proof.
+  intros Wx Wy. unfold p_equal, p_helper.
+  assert (F : out_ok (fun v => exists b, v = VBool b)
+                (match helper_fallthrough HEqual with
+                 | FTNilSeqDeepEqual => match equal_v x y with Ok r => Ok (VBool r) | Fail e => Fail e end
+                 | FTNilThenDeepEqual => Ok (VBool ((is_nil x && is_nil y) || deep_equal x y))
+                 | _ => Fail EInvalidOp
+                 end)).
+  { cbn [helper_fallthrough]. pose proof (equal_v_ok x Wx y Wy) as P. destruct (equal_v x y); cbn in *; eauto. }
+  destruct x; try exact F; destruct y; try exact F.
+  cbn in Wx, Wy. destruct (helper_cmp HEqual n n0 eq_refl Wx Wy) as [[r E]|E]; rewrite E; cbn; eauto.
 Qed.
 
 (* `==` on two values of one scalar class *)
 Lemma equal_pair x y tx ty : s_pair tx ty = true -> has_ty x tx -> has_ty y ty ->
   out_ok (fun v => exists b, v = VBool b) (p_equal x y).
-Proof.
-  unfold s_pair. intros Hp Hx Hy.
-  destruct tx; cbn in Hp; try discriminate; destruct ty; cbn in Hp; try discriminate.
-  - destruct (inv_bool _ _ _ Hx) as [a ->]. destruct (inv_bool _ _ _ Hy) as [b ->]. cbn. eauto.
-  - destruct (inv_num _ _ _ _ Hx) as (n & -> & _ & Sn). destruct (inv_num _ _ _ _ Hy) as (m & -> & _ & Sm).
-    pose proof (p_helper_cmp_num HEqual n m eq_refl Sn Sm) as H. unfold p_equal.
-    destruct (p_helper HEqual (VNum n) (VNum m)); cbn; exact H.
-  - destruct (inv_str _ _ _ Hx) as [a ->]. destruct (inv_str _ _ _ Hy) as [b ->]. cbn. eauto.
-Qed.
+Proof. intros _ Hx Hy. apply equal_ok; eapply has_ty_wf; eassumption. Qed.
 
 Lemma in_ok needle arr tl tr : sc_binary BIn tl tr = true -> has_ty needle tl -> has_ty arr tr ->
   out_ok (fun _ => True) (p_in needle arr).
 Proof.
   cbn [sc_binary]. intros Hs Hn Ha. destruct tr; try discriminate.
   - (* slice *)
-    destruct (inv_slice _ _ _ _ Ha) as [(l & -> & Hl)| ->]; cbn [p_in]; [|exact I].
+    destruct (inv_slice _ _ _ _ _ Ha) as [(l & -> & Hl)| ->]; cbn [p_in]; [|exact I].
     clear Ha. induction l as [|x r IH]; [exact I|]. inversion Hl; subst.
-    eapply out_bind; [eapply equal_pair; eauto|]. intros v [b ->]. destruct b; [exact I|]. apply IH. assumption.
+    eapply out_bind; [eapply equal_ok; eapply has_ty_wf; eassumption|]. intros v [b ->]. destruct b; [exact I|]. apply IH. assumption.
   - (* map *)
     apply andb_prop in Hs. destruct Hs as [Hk He]. apply ty_eqb_eq in He. subst tl.
     destruct (key_dyn _ _ Hk Hn) as [D NN].
-    destruct (inv_map _ _ _ _ _ Ha) as [(m & -> & _)| ->]; cbn [p_in];
+    destruct (inv_map _ _ _ _ _ _ Ha) as [(m & -> & _)| ->]; cbn [p_in];
       (rewrite D, assignable_self; destruct needle; try congruence; exact I).
   - (* struct *)
-    apply s_str_inv in Hs. subst tl. destruct (inv_str _ _ _ Hn) as [s0 ->]. destruct (inv_struct _ _ _ _ Ha) as [fields ->]. exact I.
+    apply s_str_inv in Hs. subst tl. destruct (inv_str _ _ _ _ Hn) as [s0 ->]. destruct (inv_struct _ _ _ _ _ Ha) as [fields ->]. exact I.
   - (* pointer to struct *)
-    destruct tr; try discriminate. apply s_str_inv in Hs. subst tl. destruct (inv_str _ _ _ Hn) as [s0 ->].
-    destruct (inv_ptr_struct _ _ _ _ Ha) as [[fields ->]| ->]; exact I.
+    destruct tr; try discriminate. apply s_str_inv in Hs. subst tl. destruct (inv_str _ _ _ _ Hn) as [s0 ->].
+    destruct (inv_ptr_struct _ _ _ _ _ Ha) as [[fields ->]|[-> _]]; exact I.
 Qed.
 
 Lemma range_list_ok lo n : Forall (fun x => has_ty x (TNum KInt)) (range_list lo n).
@@ -572,7 +612,7 @@ Lemma keys_as_str_ok kvs : Forall (fun p => has_ty (fst p) TString /\ vwf (snd p
 Proof.
   induction kvs as [|[k v] r IH]; intros H; cbn [keys_as_str]; [eexists; split; [reflexivity|constructor]|].
   inversion H as [|? ? [Hk Hv] Hr]; subst. destruct (IH Hr) as (r' & -> & Hr').
-  cbn [fst snd] in *. destruct (inv_str _ _ _ Hk) as [s0 ->]. cbn. eexists; split; [reflexivity|]. constructor; auto.
+  cbn [fst snd] in *. destruct (inv_str _ _ _ _ Hk) as [s0 ->]. cbn. eexists; split; [reflexivity|]. constructor; auto.
 Qed.
 
 Lemma ty_map_lit skvs : Forall (fun p => vwf (snd p)) skvs -> has_ty (VMap TString TIface (build_map skvs)) (TMap TString TIface).
@@ -870,20 +910,21 @@ Variable perm : TypesTable.table -> TypesTable.table.
 Hypothesis Hperm : forall l, Permutation (perm l) l.
 Hypothesis Hwf : wf_tenv (cc_te c) = true.
 Variable ftab : string -> option ty.
+Variable nn : bool.
 Variable fe : fenv.
 Variable cfg : config.
 Variable env : value.
 Variable T : ty.
 Variable sn : string.
 Hypothesis Hmap : c_mapenv cfg = false.
-Hypothesis Henv : env_ok c perm ftab T sn env.
-Hypothesis Hfe : fenv_ok (cc_te c) ftab fe.
+Hypothesis Henv : env_ok c perm ftab nn T sn env.
+Hypothesis Hfe : fenv_ok (cc_te c) ftab nn fe.
 
 Notation te := (cc_te c).
-Notation has_ty := (Sound.has_ty (cc_te c) ftab).
-Notation vwf := (Sound.vwf (cc_te c) ftab).
-Notation res_ok := (Sound.res_ok (cc_te c) ftab).
-Notation ctx_ok := (Sound.ctx_ok (cc_te c) ftab).
+Notation has_ty := (Sound.has_ty (cc_te c) ftab nn).
+Notation vwf := (Sound.vwf (cc_te c) ftab nn).
+Notation res_ok := (Sound.res_ok (cc_te c) ftab nn).
+Notation ctx_ok := (Sound.ctx_ok (cc_te c) ftab nn).
 Notation ev := (eval fe cfg env).
 
 Lemma res_bind t1 t r k : res_ok t1 r -> (forall v s1, has_ty v t1 -> res_ok t (k v s1)) -> res_ok t (rbind r k).
@@ -897,7 +938,7 @@ Lemma res_alloc t l n s k : (forall s', res_ok t (k s')) -> res_ok t (alloc cfg 
 Proof. intros H. unfold alloc. destruct (c_limit cfg <=? r_mem s + n)%Z; [reflexivity|apply H]. Qed.
 
 Definition sound_at (e : expr) : Prop :=
-  forall cols t e', visit c cols e None = (t, e', None) -> scope c cols e = true ->
+  forall cols t e', visit c cols e None = (t, e', None) -> scope c nn cols e = true ->
   forall ctx, ctx_ok ctx cols -> forall s, res_ok t (ev ctx e' s).
 
 (* the tree a node is rebuilt to carries the Kind of the node's type *)
@@ -928,7 +969,7 @@ Lemma sound_int a z : sound_at (EInt a z).
 Proof. intros cols t e' H _ ctx _ s. cbn in H. inversion H; subst. cbn. apply ty_vint. Qed.
 
 Lemma sound_float a f : sound_at (EFloat a f).
-Proof. intros cols t e' H _ ctx _ s. cbn in H. inversion H; subst. cbn. apply (ty_num _ _ (NFlt KF64 f)). reflexivity. Qed.
+Proof. intros cols t e' H _ ctx _ s. cbn in H. inversion H; subst. cbn. apply (ty_num _ _ _ (NFlt KF64 f)). reflexivity. Qed.
 
 Lemma sound_bool a b : sound_at (EBool a b).
 Proof. intros cols t e' H _ ctx _ s. cbn in H. inversion H; subst. cbn. apply ty_bool. Qed.
@@ -939,7 +980,7 @@ Proof. intros cols t e' H _ ctx _ s. cbn in H. inversion H; subst. cbn. apply ty
 (* ---- identifiers: the types table against Go's selector rule (C16) ---- *)
 Lemma env_T : T = TStruct sn \/ T = TPtr (TStruct sn).
 Proof.
-  pose proof (eo_struct _ _ _ _ _ _ Henv) as Hs. destruct T as [| | | | | | | |t| | |]; cbn in Hs; try discriminate.
+  pose proof (eo_struct _ _ _ _ _ _ _ Henv) as Hs. destruct T as [| | | | | | | |t| | |]; cbn in Hs; try discriminate.
   - inversion Hs. auto.
   - destruct t; try discriminate. inversion Hs. auto.
 Qed.
@@ -963,13 +1004,13 @@ Proof.
   destruct (emit (loc_of (EIdent a name ns)) (ident_rule c name ns) None) as [t1 st1] eqn:Ee.
   inversion H; subst. destruct (emit_none _ _ _ _ Ee) as [_ Er].
   cbn [scope] in Hs. unfold sc_ident, lookup_name in Hs. unfold ident_rule in Er.
-  destruct (eo_table _ _ _ _ _ _ Henv) as (tb & Htb & Hc).
-  destruct (eo_val _ _ _ _ _ _ Henv) as (p & fields & Eenv & HT). pose proof (eo_wf _ _ _ _ _ _ Henv) as Hw.
+  destruct (eo_table _ _ _ _ _ _ _ Henv) as (tb & Htb & Hc).
+  destruct (eo_val _ _ _ _ _ _ _ Henv) as (p & fields & Eenv & HT). pose proof (eo_wf _ _ _ _ _ _ _ Henv) as Hw.
   rewrite Eenv in Hw. rewrite Htb in Hs, Er. destruct (tget name tb) as [tg|] eqn:Hg; [|discriminate].
   apply andb_prop in Hs. destruct Hs as [Ha Hm]. apply negb_true_iff in Ha, Hm. rewrite Ha in Er.
   inversion Er; subst t.
   destruct (table_field tb name tg Htb Hc Hg Ha Hm) as [pth R].
-  destruct (fetch_member te ftab sn p fields name pth (tg_ty tg) ns Hw R) as (x & Ef & Hx).
+  destruct (fetch_member te ftab nn sn p fields name pth (tg_ty tg) ns Hw R) as (x & Ef & Hx).
   cbn [settle set_ann eval]. unfold fetch_ident. rewrite Hmap, Eenv, Ef. cbn. exact Hx.
 Qed.
 
@@ -985,13 +1026,13 @@ Proof.
   cbn [settle set_ann]. rewrite sv_unary. eapply res_bind; [exact (IH _ _ _ Ex Hsx ctx Hc s)|].
   intros v s1 Hv. destruct op; cbn [sc_unary] in Hso; try discriminate.
   - apply s_bool_inv in Hso. subst tx. cbn in Er. inversion Er; subst.
-    destruct (inv_bool _ _ _ Hv) as [b ->]. cbn. apply ty_bool.
+    destruct (inv_bool _ _ _ _ Hv) as [b ->]. cbn. apply ty_bool.
   - apply s_bool_inv in Hso. subst tx. cbn in Er. inversion Er; subst.
-    destruct (inv_bool _ _ _ Hv) as [b ->]. cbn. apply ty_bool.
+    destruct (inv_bool _ _ _ _ Hv) as [b ->]. cbn. apply ty_bool.
   - destruct (s_num_inv _ Hso) as [k ->]. cbn [unary_rule] in Er. rewrite is_number_num in Er. inversion Er; subst t.
     exact Hv.
   - destruct (s_num_inv _ Hso) as [k ->]. cbn [unary_rule] in Er. rewrite is_number_num in Er. inversion Er; subst t.
-    destruct (inv_num _ _ _ _ Hv) as (n & -> & Kn & Sn). cbn.
+    destruct (inv_num _ _ _ _ _ Hv) as (n & -> & Kn & Sn). cbn.
     replace k with (num_kind (go_neg n)) by (destruct n; exact Kn).
     apply ty_num. destruct n; exact Sn.
 Qed.
@@ -1002,7 +1043,7 @@ Lemma arith_ok h va vb kl kr t l0 s0 : is_cmp h = false -> has_case h kl kr = tr
   res_ok t (lift l0 s0 (p_helper h va vb) (fun v => Done v s0)).
 Proof.
   intros Hh Hc Ha Hb Ec.
-  destruct (inv_num _ _ _ _ Ha) as (x & -> & Kx & Sx). destruct (inv_num _ _ _ _ Hb) as (y & -> & Ky & Sy).
+  destruct (inv_num _ _ _ _ _ Ha) as (x & -> & Kx & Sx). destruct (inv_num _ _ _ _ _ Hb) as (y & -> & Ky & Sy).
   subst kl kr. unfold comb in Ec. rewrite combined_ty_num in Ec.
   pose proof (p_helper_ar_num h x y Hh Hc Sx Sy) as P.
   destruct (p_helper h (VNum x) (VNum y)) as [v|e]; cbn [lift Sound.res_ok]; [|exact P].
@@ -1015,40 +1056,50 @@ Lemma cmp_ok h va vb tl tr l0 s0 : is_cmp h = true ->
 Proof.
   intros Hh Hs Ha Hb. apply orb_prop in Hs. destruct Hs as [Hs|Hs]; apply andb_prop in Hs; destruct Hs as [H1 H2].
   - destruct (s_num_inv _ H1) as [kl ->]. destruct (s_num_inv _ H2) as [kr ->].
-    destruct (inv_num _ _ _ _ Ha) as (x & -> & Kx & Sx). destruct (inv_num _ _ _ _ Hb) as (y & -> & Ky & Sy).
+    destruct (inv_num _ _ _ _ _ Ha) as (x & -> & Kx & Sx). destruct (inv_num _ _ _ _ _ Hb) as (y & -> & Ky & Sy).
     pose proof (p_helper_cmp_num h x y Hh Sx Sy) as P.
     destruct (p_helper h (VNum x) (VNum y)) as [v|e]; cbn [lift Sound.res_ok]; [|exact P].
     destruct P as [b ->]. apply ty_bool.
   - apply s_str_inv in H1, H2. subst tl tr.
-    destruct (inv_str _ _ _ Ha) as [x ->]. destruct (inv_str _ _ _ Hb) as [y ->].
+    destruct (inv_str _ _ _ _ Ha) as [x ->]. destruct (inv_str _ _ _ _ Hb) as [y ->].
     destruct (p_helper_cmp_str h x y Hh) as [b ->]. cbn. apply ty_bool.
 Qed.
 
 Lemma int_kint n : num_kind n = KInt -> num_shape n = true -> exists z, n = NInt KInt z.
 Proof. destruct n as [k z|k f]; cbn; intros -> H; [eauto|discriminate]. Qed.
 
+Lemma kind_num_plain t k : kind_of_ty t = RKNum k -> is_declared t = false -> t = TNum k.
+Proof. destruct t; cbn; try discriminate; intros H _; inversion H; reflexivity. Qed.
+Lemma kind_str_plain t : kind_of_ty t = RKString -> is_declared t = false -> t = TString.
+Proof. destruct t; cbn; try discriminate; reflexivity. Qed.
+Lemma rkind_eqb_eq a b : rkind_eqb a b = true -> a = b.
+Proof. destruct a, b; cbn; try discriminate; try reflexivity. intros H. apply kind_eqb_eq in H. subst. reflexivity. Qed.
+
 Lemma eq_ok l' r' tl tr va vb l0 s0 :
-  kind_of l' = kind_of_ty tl -> kind_of r' = kind_of_ty tr -> s_pair tl tr = true ->
+  kind_of l' = kind_of_ty tl -> kind_of r' = kind_of_ty tr ->
+  negb (is_declared tl) && negb (is_declared tr) = true ->
   has_ty va tl -> has_ty vb tr -> res_ok TBool (bin_strict fe cfg l0 BEq l' r' va vb s0).
 Proof.
   intros Kl Kr Hp Ha Hb. cbn [bin_strict]. rewrite !(both_kind_settled _ _ _ _ _ Kl Kr).
+  apply andb_prop in Hp. destruct Hp as [Dl Dr]. apply negb_true_iff in Dl, Dr.
   assert (G : res_ok TBool (lift l0 s0 (p_equal va vb) (fun v => Done v s0))).
-  { pose proof (equal_pair te ftab va vb tl tr Hp Ha Hb) as P. destruct (p_equal va vb) as [v|e]; cbn; [|exact P].
-    destruct P as [b ->]. apply ty_bool. }
-  unfold s_pair in Hp.
-  destruct tl; cbn in Hp; try discriminate; destruct tr; cbn in Hp; try discriminate; cbn [kind_of_ty rkind_eqb andb].
-  - exact G.
-  - destruct (kind_eqb k KInt && kind_eqb k0 KInt) eqn:E; [|exact G].
-    apply andb_prop in E. destruct E as [E1 E2]. apply kind_eqb_eq in E1, E2. subst.
-    destruct (inv_num _ _ _ _ Ha) as (x & -> & Kx & Sx). destruct (inv_num _ _ _ _ Hb) as (y & -> & Ky & Sy).
+  { pose proof (equal_ok te ftab nn va vb (has_ty_wf _ _ _ _ _ Ha) (has_ty_wf _ _ _ _ _ Hb)) as P.
+    destruct (p_equal va vb) as [v|e]; cbn; [|exact P]. destruct P as [b ->]. apply ty_bool. }
+  destruct (rkind_eqb (kind_of_ty tl) (RKNum KInt) && rkind_eqb (kind_of_ty tr) (RKNum KInt)) eqn:E1.
+  - apply andb_prop in E1. destruct E1 as [E1 E2]. apply rkind_eqb_eq in E1, E2.
+    rewrite (kind_num_plain _ _ E1 Dl) in Ha. rewrite (kind_num_plain _ _ E2 Dr) in Hb.
+    destruct (inv_num _ _ _ _ _ Ha) as (x & -> & Kx & Sx). destruct (inv_num _ _ _ _ _ Hb) as (y & -> & Ky & Sy).
     destruct (int_kint _ Kx Sx) as [zx ->]. destruct (int_kint _ Ky Sy) as [zy ->]. cbn. apply ty_bool.
-  - destruct (inv_str _ _ _ Ha) as [x ->]. destruct (inv_str _ _ _ Hb) as [y ->]. cbn. apply ty_bool.
+  - destruct (rkind_eqb (kind_of_ty tl) RKString && rkind_eqb (kind_of_ty tr) RKString) eqn:E2; [|exact G].
+    apply andb_prop in E2. destruct E2 as [E2 E3]. apply rkind_eqb_eq in E2, E3.
+    rewrite (kind_str_plain _ E2 Dl) in Ha. rewrite (kind_str_plain _ E3 Dr) in Hb.
+    destruct (inv_str _ _ _ _ Ha) as [x ->]. destruct (inv_str _ _ _ _ Hb) as [y ->]. cbn. apply ty_bool.
 Qed.
 
 Lemma str2_ok (f : string -> string -> bool) va vb l0 s0 : has_ty va TString -> has_ty vb TString ->
   res_ok TBool (lift l0 s0 (as_str va) (fun x => lift l0 s0 (as_str vb) (fun y => Done (VBool (f x y)) s0))).
 Proof.
-  intros Ha Hb. destruct (inv_str _ _ _ Ha) as [x ->]. destruct (inv_str _ _ _ Hb) as [y ->]. cbn. apply ty_bool.
+  intros Ha Hb. destruct (inv_str _ _ _ _ Ha) as [x ->]. destruct (inv_str _ _ _ _ Hb) as [y ->]. cbn. apply ty_bool.
 Qed.
 
 Ltac rule_true E :=
@@ -1081,22 +1132,22 @@ Proof.
   (* or / and *)
   1-4: apply andb_prop in Hso; destruct Hso as [H1 H2]; apply s_bool_inv in H1, H2; subst tl tr;
        cbn in Eru; inversion Eru; subst t;
-       (eapply res_bind; [apply Rl|]); intros va s1 Ha; destruct (inv_bool _ _ _ Ha) as [b ->]; cbn [as_bool lift];
+       (eapply res_bind; [apply Rl|]); intros va s1 Ha; destruct (inv_bool _ _ _ _ Ha) as [b ->]; cbn [as_bool lift];
        destruct b; first [apply ty_bool | apply Rr].
   (* the strict operators *)
   all: (eapply res_bind; [apply Rl|]); intros va s1 Ha; (eapply res_bind; [apply Rr|]); intros vb s2 Hb.
   - (* == *) rule_true Eru. inversion Eru; subst t. eapply eq_ok; eauto.
   - (* != *) rule_true Eru. inversion Eru; subst t. cbn [bin_strict].
-    pose proof (equal_pair te ftab va vb tl tr Hso Ha Hb) as P. destruct (p_equal va vb) as [v|e]; cbn; [|exact P].
-    destruct P as [b ->]. cbn. apply ty_bool.
+    pose proof (equal_ok te ftab nn va vb (has_ty_wf _ _ _ _ _ Ha) (has_ty_wf _ _ _ _ _ Hb)) as P.
+    destruct (p_equal va vb) as [v|e]; cbn; [|exact P]. destruct P as [b ->]. cbn. apply ty_bool.
   - (* < *) rule_true Eru. inversion Eru; subst t. cbn [bin_strict]. eapply cmp_ok; eauto.
   - rule_true Eru. inversion Eru; subst t. cbn [bin_strict]. eapply cmp_ok; eauto.
   - rule_true Eru. inversion Eru; subst t. cbn [bin_strict]. eapply cmp_ok; eauto.
   - rule_true Eru. inversion Eru; subst t. cbn [bin_strict]. eapply cmp_ok; eauto.
   - (* not in *) rule_true Eru. inversion Eru; subst t. cbn [bin_strict].
-    pose proof (in_ok te ftab va vb tl tr Hso Ha Hb) as P. destruct (p_in va vb) as [b|e]; cbn; [apply ty_bool|exact P].
+    pose proof (in_ok te ftab nn va vb tl tr Hso Ha Hb) as P. destruct (p_in va vb) as [b|e]; cbn; [apply ty_bool|exact P].
   - (* in *) rule_true Eru. inversion Eru; subst t. cbn [bin_strict].
-    pose proof (in_ok te ftab va vb tl tr Hso Ha Hb) as P. destruct (p_in va vb) as [b|e]; cbn; [apply ty_bool|exact P].
+    pose proof (in_ok te ftab nn va vb tl tr Hso Ha Hb) as P. destruct (p_in va vb) as [b|e]; cbn; [apply ty_bool|exact P].
   - (* contains *) apply andb_prop in Hso. destruct Hso as [H1 H2]. apply s_str_inv in H1, H2. subst.
     cbn in Eru. inversion Eru; subst t. cbn [bin_strict]. apply str2_ok; assumption.
   - apply andb_prop in Hso. destruct Hso as [H1 H2]. apply s_str_inv in H1, H2. subst.
@@ -1108,14 +1159,14 @@ Proof.
   - (* .. *) apply andb_prop in Hso. destruct Hso as [H1 H2].
     destruct (s_int_inv _ H1) as (kl & -> & Fl). destruct (s_int_inv _ H2) as (kr & -> & Fr).
     rewrite !is_integer_num, Fl, Fr in Eru. cbn in Eru. inversion Eru; subst t. cbn [bin_strict].
-    destruct (inv_num _ _ _ _ Ha) as (x & -> & _ & _). destruct (inv_num _ _ _ _ Hb) as (y & -> & _ & _).
+    destruct (inv_num _ _ _ _ _ Ha) as (x & -> & _ & _). destruct (inv_num _ _ _ _ _ Hb) as (y & -> & _ & _).
     eapply res_lift; [apply to_int_ok|]. intros lo _. eapply res_lift; [apply to_int_ok|]. intros hi _.
     destruct (range_size lo hi); [|reflexivity]. apply res_alloc. intros s'. cbn. apply make_range_ok.
   - (* + *) apply orb_prop in Hso. destruct Hso as [Hso|Hso]; apply andb_prop in Hso; destruct Hso as [H1 H2].
     + destruct (s_num_inv _ H1) as [kl ->]. destruct (s_num_inv _ H2) as [kr ->].
       rewrite !is_number_num in Eru. cbn [andb] in Eru. cbn [bin_strict]. eapply arith_ok; eauto; reflexivity.
     + apply s_str_inv in H1, H2. subst. cbn in Eru. inversion Eru; subst t. cbn [bin_strict].
-      destruct (inv_str _ _ _ Ha) as [x ->]. destruct (inv_str _ _ _ Hb) as [y ->]. cbn. apply ty_str.
+      destruct (inv_str _ _ _ _ Ha) as [x ->]. destruct (inv_str _ _ _ _ Hb) as [y ->]. cbn. apply ty_str.
   - (* - *) apply andb_prop in Hso. destruct Hso as [H1 H2].
     destruct (s_num_inv _ H1) as [kl ->]. destruct (s_num_inv _ H2) as [kr ->].
     rewrite !is_number_num in Eru. cbn [andb] in Eru. cbn [bin_strict]. eapply arith_ok; eauto; reflexivity.
@@ -1132,9 +1183,9 @@ Proof.
   - (* ** *) apply andb_prop in Hso. destruct Hso as [H1 H2].
     destruct (s_num_inv _ H1) as [kl ->]. destruct (s_num_inv _ H2) as [kr ->].
     rewrite !is_number_num in Eru. cbn in Eru. inversion Eru; subst t. cbn [bin_strict].
-    destruct (inv_num _ _ _ _ Ha) as (x & -> & _ & _). destruct (inv_num _ _ _ _ Hb) as (y & -> & _ & _).
+    destruct (inv_num _ _ _ _ _ Ha) as (x & -> & _ & _). destruct (inv_num _ _ _ _ _ Hb) as (y & -> & _ & _).
     eapply res_lift; [apply to_float64_ok|]. intros fx _. eapply res_lift; [apply to_float64_ok|]. intros fy _.
-    cbn. apply (ty_num _ _ (NFlt KF64 _)). reflexivity.
+    cbn. apply (ty_num _ _ _ (NFlt KF64 _)). reflexivity.
 Qed.
 
 (* ---- matches ---- *)
@@ -1152,10 +1203,10 @@ Proof.
   cbn in Eru. inversion Eru; subst t.
   pose proof (fun s => IHl _ _ _ El Hsl ctx Hc s) as Rl. pose proof (fun s => IHr _ _ _ Er Hsr ctx Hc s) as Rr.
   cbn [settle set_ann]. rewrite sv_matches. destruct re as [p|].
-  - eapply res_bind; [apply Rl|]. intros va s1 Ha. destruct (inv_str _ _ _ Ha) as [x ->]. cbn [as_str lift].
+  - eapply res_bind; [apply Rl|]. intros va s1 Ha. destruct (inv_str _ _ _ _ Ha) as [x ->]. cbn [as_str lift].
     destruct (re_match fe p x); [apply ty_bool|reflexivity].
   - eapply res_bind; [apply Rl|]. intros va s1 Ha. eapply res_bind; [apply Rr|]. intros vb s2 Hb.
-    destruct (inv_str _ _ _ Ha) as [x ->]. destruct (inv_str _ _ _ Hb) as [p ->]. cbn [as_str lift].
+    destruct (inv_str _ _ _ _ Ha) as [x ->]. destruct (inv_str _ _ _ _ Hb) as [p ->]. cbn [as_str lift].
     destruct (re_match fe p x); [apply ty_bool|reflexivity].
 Qed.
 
@@ -1183,7 +1234,7 @@ Proof.
   pose proof (fun s => IHc _ _ _ Ec Hscn ctx Hc s) as Rc.
   pose proof (fun s => IHx _ _ _ Ex Hsx ctx Hc s) as Rx. pose proof (fun s => IHy _ _ _ Ey Hsy ctx Hc s) as Ry.
   cbn [settle set_ann]. rewrite sv_cond. eapply res_bind; [apply Rc|]. intros vc s1 Hvc.
-  destruct (inv_bool _ _ _ Hvc) as [b ->]. cbn [as_bool lift].
+  destruct (inv_bool _ _ _ _ Hvc) as [b ->]. cbn [as_bool lift].
   unfold sc_cond in Hsc. apply orb_prop in Hsc. destruct Hsc as [Hsc|Hsc].
   - apply ty_eqb_eq in Hsc. subst t2. rewrite cond_rule_same. destruct b; [apply Rx|apply Ry].
   - apply andb_prop in Hsc. destruct Hsc as [Hsc N3]. apply andb_prop in Hsc. destruct Hsc as [N1 N2].
@@ -1193,17 +1244,27 @@ Proof.
 Qed.
 
 (* ---- member access ---- *)
-Lemma member_resolves sn' name ft :
-  sc_property te (TStruct sn') name = true -> field_type te (fuel0 te) (TStruct sn') name = LFound ft ->
+Lemma field_type_deref n t t' name : dereference t = dereference t' -> field_type te n t name = field_type te n t' name.
+Proof. intros E. destruct n; cbn [field_type]; rewrite E; reflexivity. Qed.
+
+Lemma member_resolves sn' t name ft : dereference t = TStruct sn' ->
+  sc_member te sn' t name = true -> field_type te (fuel0 te) t name = LFound ft ->
   exists pth, go_resolve_field te sn' name = RField pth ft true.
 Proof.
-  cbn [sc_property]. intros Hs Hft.
+  unfold sc_member. intros D Hs Hft.
   apply andb_prop in Hs. destruct Hs as [Hs _]. apply andb_prop in Hs. destruct Hs as [Hs Hu].
   apply andb_prop in Hs. destruct Hs as [Hf Hm]. apply negb_true_iff in Hu, Hm.
-  destruct (field_type_sound te Hwf _ (TStruct sn') sn' name ft Hf eq_refl Hft Hm) as (d & p & f & R & -> & Hd).
+  destruct (field_type_sound te Hwf _ t sn' name ft Hf D Hft Hm) as (d & p & f & R & -> & Hd).
   exists p. unfold unexported_member in Hu. unfold go_resolve_field in *.
   rewrite (search_found te sn' name d p f R) in * by (unfold fuel0 in Hd; lia).
   destruct (fd_exp f); [reflexivity|discriminate].
+Qed.
+
+Lemma sc_member_found sn' t name : sc_member te sn' t name = true ->
+  exists ft, field_type te (fuel0 te) t name = LFound ft.
+Proof.
+  unfold sc_member. intros H. apply andb_prop in H. destruct H as [_ H].
+  destruct (field_type te (fuel0 te) t name); try discriminate. eauto.
 Qed.
 
 Lemma sound_property a x name ns : sound_at x -> sound_at (EProperty a x name ns).
@@ -1216,18 +1277,25 @@ Proof.
   apply andb_prop in Hs. destruct Hs as [Hsx Hsp].
   cbn [settle set_ann]. rewrite sv_property. eapply res_bind; [exact (IH _ _ _ Ex Hsx ctx Hc s)|].
   intros v s1 Hv. unfold property_rule, Checker.te, cfuel, Checker.te in Eru.
-  destruct tx; try discriminate.
+  destruct tx as [| | | | | |kt et|sn'|tp| | |]; try discriminate.
   - (* map[string]T *)
-    cbn [sc_property] in Hsp. apply andb_prop in Hsp. destruct Hsp as [Hk Hz]. apply s_str_inv in Hk. subst tx1.
+    cbn [sc_property] in Hsp. apply andb_prop in Hsp. destruct Hsp as [Hk Hz]. apply s_str_inv in Hk. subst kt.
     cbn in Eru. inversion Eru; subst t.
-    pose proof (fetch_map te ftab v (VStr name) TString tx2 ns Hv (ty_str _ _ name) eq_refl Hz) as P.
+    pose proof (fetch_map te ftab nn v (VStr name) TString et ns Hv (ty_str _ _ _ name) eq_refl Hz) as P.
     destruct (p_fetch v (VStr name) ns); cbn; exact P.
   - (* struct *)
-    destruct (field_type te (fuel0 te) (TStruct name0) name) as [ft| |] eqn:Hft;
-      try (cbn [sc_property] in Hsp; rewrite Hft in Hsp; rewrite !andb_false_r in Hsp; discriminate).
-    inversion Eru; subst t. destruct (member_resolves _ _ _ Hsp Hft) as [pth R].
-    destruct (inv_struct _ _ _ _ Hv) as [fields ->].
-    destruct (fetch_member te ftab name0 false fields name pth ft ns (has_ty_wf _ _ _ _ Hv) R) as (r & Ef & Hr).
+    cbn [sc_property] in Hsp. destruct (sc_member_found _ _ _ Hsp) as [ft Hft]. rewrite Hft in Eru.
+    inversion Eru; subst t. destruct (member_resolves sn' (TStruct sn') name ft eq_refl Hsp Hft) as [pth R].
+    destruct (inv_struct _ _ _ _ _ Hv) as [fields ->].
+    destruct (fetch_member te ftab nn sn' false fields name pth ft ns (has_ty_wf _ _ _ _ _ Hv) R) as (r & Ef & Hr).
+    rewrite Ef. cbn. exact Hr.
+  - (* pointer to struct, no nil pointers *)
+    destruct tp as [| | | | | | |sn'| | | |]; try discriminate. cbn [sc_property] in Hsp.
+    apply andb_prop in Hsp. destruct Hsp as [Hnn Hsp].
+    destruct (sc_member_found _ _ _ Hsp) as [ft Hft]. rewrite Hft in Eru.
+    inversion Eru; subst t. destruct (member_resolves sn' (TPtr (TStruct sn')) name ft eq_refl Hsp Hft) as [pth R].
+    destruct (inv_ptr_struct _ _ _ _ _ Hv) as [[fields ->]|[_ Hn]]; [|congruence].
+    destruct (fetch_member te ftab nn sn' true fields name pth ft ns (has_ty_wf _ _ _ _ _ Hv) R) as (r & Ef & Hr).
     rewrite Ef. cbn. exact Hr.
 Qed.
 
@@ -1246,10 +1314,10 @@ Proof.
   eapply res_bind; [apply Ri|]. intros vi s2 Hvi.
   unfold index_rule in Eru. destruct tx; try discriminate; cbn [sc_index index_type dereference under] in *.
   - destruct (s_int_inv _ Hsi) as (k & -> & Fk). rule_any Eru. inversion Eru; subst t.
-    pose proof (fetch_slice te ftab v vi tx k false Hv Hvi) as P. destruct (p_fetch v vi false); cbn; exact P.
+    pose proof (fetch_slice te ftab nn v vi tx k false Hv Hvi) as P. destruct (p_fetch v vi false); cbn; exact P.
   - apply andb_prop in Hsi. destruct Hsi as [Hsi Hz]. apply andb_prop in Hsi. destruct Hsi as [Hk He].
     apply ty_eqb_eq in He. subst ti. rule_any Eru. inversion Eru; subst t.
-    pose proof (fetch_map te ftab v vi tx1 tx2 false Hv Hvi Hk Hz) as P. destruct (p_fetch v vi false); cbn; exact P.
+    pose proof (fetch_map te ftab nn v vi tx1 tx2 false Hv Hvi Hk Hz) as P. destruct (p_fetch v vi false); cbn; exact P.
 Qed.
 
 (* ---- slice ---- *)
@@ -1262,24 +1330,24 @@ Ltac kill_fail H :=
 
 Definition opt_vis (cols : list ty) (o o' : option expr) : Prop :=
   match o, o' with
-  | Some f, Some f' => exists k, visit c cols f None = (TNum k, f', None) /\ scope c cols f = true
+  | Some f, Some f' => exists k, visit c cols f None = (TNum k, f', None) /\ scope c nn cols f = true
   | None, None => True
   | _, _ => False
   end.
 
 Lemma idx_scope cols f tf f' st :
-  visit c cols f None = (tf, f', st) -> scope c cols f && s_int (tyof c cols f) = true ->
-  scope c cols f = true /\ exists k, tf = TNum k /\ is_float k = false.
+  visit c cols f None = (tf, f', st) -> scope c nn cols f && s_int (tyof c cols f) = true ->
+  scope c nn cols f = true /\ exists k, tf = TNum k /\ is_float k = false.
 Proof.
   intros E H. unfold tyof in H. rewrite E in H. cbn [fst] in H. apply andb_prop in H. destruct H as [H1 H2].
   split; [exact H1|]. apply s_int_inv. exact H2.
 Qed.
 
 Lemma slice_inv cols a x from to t e' :
-  visit c cols (ESlice a x from to) None = (t, e', None) -> scope c cols (ESlice a x from to) = true ->
+  visit c cols (ESlice a x from to) None = (t, e', None) -> scope c nn cols (ESlice a x from to) = true ->
   exists x' from' to', visit c cols x None = (t, x', None) /\
     e' = ESlice (mkAnn (aloc a) (kind_of_ty t)) x' from' to' /\
-    scope c cols x = true /\ sc_sliceable t = true /\ opt_vis cols from from' /\ opt_vis cols to to'.
+    scope c nn cols x = true /\ sc_sliceable t = true /\ opt_vis cols from from' /\ opt_vis cols to to'.
 Proof.
   intros H Hs. cbn [visit] in H. destruct (visit c cols x None) as [[tx x'] st1] eqn:Ex.
   cbn [scope] in Hs. unfold tyof at 1 in Hs. rewrite Ex in Hs. cbn [fst] in Hs.
@@ -1315,7 +1383,7 @@ Proof.
             (match to' with Some u => ev ctx u s1 | None => lift (aloc a) s1 (p_length v) (fun n => Done (vint n) s1) end)).
   { destruct to as [u|], to' as [u'|]; cbn in Ou; try contradiction.
     - destruct Ou as (k & Eu & Su). exists k. exact (IHu u eq_refl _ _ _ Eu Su ctx Hc s1).
-    - exists KInt. destruct (length_ok te ftab v t) as [n ->]; auto.
+    - exists KInt. destruct (length_ok te ftab nn v t) as [n ->]; auto.
       + destruct t; try discriminate; reflexivity.
       + cbn. apply ty_vint. }
   destruct Rto as [ku Rto]. eapply res_bind; [exact Rto|]. intros vto s2 Hto.
@@ -1324,7 +1392,7 @@ Proof.
     - destruct Of as (k & Ef & Sf). exists k. exact (IHf f eq_refl _ _ _ Ef Sf ctx Hc s2).
     - exists KInt. cbn. apply ty_vint. }
   destruct Rfrom as [kf Rfrom]. eapply res_bind; [exact Rfrom|]. intros vfrom s3 Hfrom.
-  pose proof (slice_ok te ftab v vfrom vto t kf ku Hsl Hv Hfrom Hto) as P.
+  pose proof (slice_ok te ftab nn v vfrom vto t kf ku Hsl Hv Hfrom Hto) as P.
   destruct (p_slice v vfrom vto); cbn; exact P.
 Qed.
 
@@ -1339,7 +1407,7 @@ Proof.
   apply andb_prop in Hs. destruct Hs as [Hsx Hsl].
   unfold len_rule in Eru. rule_any Eru. inversion Eru; subst t.
   cbn [settle set_ann]. rewrite sv_len. eapply res_bind; [exact (IH _ _ _ Ex Hsx ctx Hc s)|]. intros v s1 Hv.
-  destruct (length_ok te ftab v tx Hsl Hv) as [n ->]. cbn. apply ty_vint.
+  destruct (length_ok te ftab nn v tx Hsl Hv) as [n ->]. cbn. apply ty_vint.
 Qed.
 
 (* ---- # ---- *)
@@ -1352,16 +1420,16 @@ Proof.
   cbn in Eru. inversion Eru; subst t.
   inversion Hc as [|[arr i] ? ctx' ? [_ Harr] Hrest]; subst. cbn [fst] in Harr.
   cbn [settle set_ann eval].
-  pose proof (fetch_slice te ftab arr (vint i) c0 KInt false Harr (ty_vint _ _ i)) as P.
+  pose proof (fetch_slice te ftab nn arr (vint i) c0 KInt false Harr (ty_vint _ _ _ i)) as P.
   destruct (p_fetch arr (vint i) false); cbn; exact P.
 Qed.
 
 (* ---- array literal ---- *)
-Lemma scope_array cols a es : scope c cols (EArray a es) = forallb (scope c cols) es.
+Lemma scope_array cols a es : scope c nn cols (EArray a es) = forallb (scope c nn cols) es.
 Proof. reflexivity. Qed.
 
 Lemma ev_list_ok cols ctx es es' t : ctx_ok ctx cols ->
-  Forall sound_at es -> forallb (scope c cols) es = true ->
+  Forall sound_at es -> forallb (scope c nn cols) es = true ->
   Forall2 (fun x x' => exists t, visit c cols x None = (t, x', None)) es es' ->
   forall s k, (forall vs s', Forall (fun v => vwf v) vs -> res_ok t (k vs s')) ->
   res_ok t (ev_list fe cfg env ctx es' s k).
@@ -1387,19 +1455,19 @@ Definition sc_pairs (cols : list ty) : list expr -> bool :=
   fix spairs (ps : list expr) {struct ps} : bool :=
   match ps with
   | [] => true
-  | EPair _ k v :: r => scope c cols k && scope c cols v && s_str (tyof c cols k) && spairs r
+  | EPair _ k v :: r => scope c nn cols k && scope c nn cols v && s_str (tyof c cols k) && spairs r
   | _ :: _ => false
   end.
 
 Lemma sc_pairs_cons cols x r :
   sc_pairs cols (x :: r) =
   match x with
-  | EPair _ k v => scope c cols k && scope c cols v && s_str (tyof c cols k) && sc_pairs cols r
+  | EPair _ k v => scope c nn cols k && scope c nn cols v && s_str (tyof c cols k) && sc_pairs cols r
   | _ => false
   end.
 Proof. destruct x; reflexivity. Qed.
 
-Lemma scope_map cols a ps : scope c cols (Ast.EMap a ps) = sc_pairs cols ps.
+Lemma scope_map cols a ps : scope c nn cols (Ast.EMap a ps) = sc_pairs cols ps.
 Proof. reflexivity. Qed.
 
 Definition pair_sound (p : expr) : Prop := forall a k v, p = EPair a k v -> sound_at k /\ sound_at v.
@@ -1431,7 +1499,7 @@ Proof.
   destruct (vlist c cols ps None) as [ps' st1] eqn:El. inversion H; subst.
   rewrite scope_map in Hs. cbn [settle set_ann]. rewrite sv_map.
   eapply ev_pairs_ok; eauto using vlist_inv. intros kvs s' Hkvs.
-  destruct (keys_as_str_ok te ftab kvs Hkvs) as (skvs & -> & Hsk). cbn [lift].
+  destruct (keys_as_str_ok te ftab nn kvs Hkvs) as (skvs & -> & Hsk). cbn [lift].
   apply res_alloc. intros s2. cbn. apply ty_map_lit. exact Hsk.
 Qed.
 
@@ -1443,21 +1511,21 @@ Variable l : loc.
 Lemma all_loop_ok : (forall i s, res_ok TBool (body i s)) -> forall n i s, res_ok TBool (all_loop body l n i s).
 Proof.
   intros Hb. induction n as [|n IH]; intros i s; cbn [all_loop]; [apply ty_bool|].
-  eapply res_bind; [apply Hb|]. intros v s1 Hv. destruct (inv_bool _ _ _ Hv) as [b ->]. cbn.
+  eapply res_bind; [apply Hb|]. intros v s1 Hv. destruct (inv_bool _ _ _ _ Hv) as [b ->]. cbn.
   destruct b; [apply IH|apply ty_bool].
 Qed.
 
 Lemma none_loop_ok : (forall i s, res_ok TBool (body i s)) -> forall n i s, res_ok TBool (none_loop body l n i s).
 Proof.
   intros Hb. induction n as [|n IH]; intros i s; cbn [none_loop]; [apply ty_bool|].
-  eapply res_bind; [apply Hb|]. intros v s1 Hv. destruct (inv_bool _ _ _ Hv) as [b ->]. cbn.
+  eapply res_bind; [apply Hb|]. intros v s1 Hv. destruct (inv_bool _ _ _ _ Hv) as [b ->]. cbn.
   destruct b; [apply ty_bool|apply IH].
 Qed.
 
 Lemma any_loop_ok : (forall i s, res_ok TBool (body i s)) -> forall n i s, res_ok TBool (any_loop body l n i s).
 Proof.
   intros Hb. induction n as [|n IH]; intros i s; cbn [any_loop]; [apply ty_bool|].
-  eapply res_bind; [apply Hb|]. intros v s1 Hv. destruct (inv_bool _ _ _ Hv) as [b ->]. cbn.
+  eapply res_bind; [apply Hb|]. intros v s1 Hv. destruct (inv_bool _ _ _ _ Hv) as [b ->]. cbn.
   destruct b; [apply ty_bool|apply IH].
 Qed.
 
@@ -1465,7 +1533,7 @@ Lemma count_loop_ok t k : (forall i s, res_ok TBool (body i s)) -> (forall cnt s
   forall n i cnt s, res_ok t (count_loop body l n i cnt s k).
 Proof.
   intros Hb Hk. induction n as [|n IH]; intros i cnt s; cbn [count_loop]; [apply Hk|].
-  eapply res_bind; [apply Hb|]. intros v s1 Hv. destruct (inv_bool _ _ _ Hv) as [b ->]. cbn. apply IH.
+  eapply res_bind; [apply Hb|]. intros v s1 Hv. destruct (inv_bool _ _ _ _ Hv) as [b ->]. cbn. apply IH.
 Qed.
 
 Lemma filter_loop_ok t el elem k : (forall i s, res_ok TBool (body i s)) ->
@@ -1475,7 +1543,7 @@ Lemma filter_loop_ok t el elem k : (forall i s, res_ok TBool (body i s)) ->
 Proof.
   intros Hb He Hk. induction n as [|n IH]; intros i acc s Hacc; cbn [filter_loop].
   - apply Hk. apply Forall_rev. exact Hacc.
-  - eapply res_bind; [apply Hb|]. intros v s1 Hv. destruct (inv_bool _ _ _ Hv) as [b ->]. cbn [as_bool lift].
+  - eapply res_bind; [apply Hb|]. intros v s1 Hv. destruct (inv_bool _ _ _ _ Hv) as [b ->]. cbn [as_bool lift].
     destruct b; [|apply IH; exact Hacc].
     eapply res_lift; [apply He|]. intros x Hx. apply IH. constructor; assumption.
 Qed.
@@ -1492,11 +1560,11 @@ End LoopLemmas.
 
 Lemma loop_inv cols a b x ac body t e' : is_loop_builtin b = true ->
   visit c cols (EBuiltin a b [x; EClosure ac body]) None = (t, e', None) ->
-  scope c cols (EBuiltin a b [x; EClosure ac body]) = true ->
+  scope c nn cols (EBuiltin a b [x; EClosure ac body]) = true ->
   exists el x' tb body' an acl,
     visit c cols x None = (TSlice el, x', None) /\ visit c (TSlice el :: cols) body None = (tb, body', None) /\
     e' = EBuiltin an b [x'; EClosure acl body'] /\ aloc an = aloc a /\
-    scope c cols x = true /\ scope c (TSlice el :: cols) body = true /\ sc_closure b el tb = true /\
+    scope c nn cols x = true /\ scope c nn (TSlice el :: cols) body = true /\ sc_closure b el tb = true /\
     closure_rule b (TSlice el) (TFunc [TIface] false [if is_nil_ty tb then TIface else tb]) = inl t.
 Proof.
   intros Hb H Hs.
@@ -1519,11 +1587,11 @@ Proof.
   intros Hb IHx IHb cols t e' H Hs ctx Hc s.
   destruct (loop_inv _ _ _ _ _ _ _ _ Hb H Hs) as (el & x' & tb & body' & an & acl & Ex & Eb & -> & Ean & Hsx & Hsb & Hsc & Eru).
   rewrite sv_loop by exact Hb. eapply res_bind; [exact (IHx _ _ _ Ex Hsx ctx Hc s)|]. intros v s1 Hv.
-  destruct (length_ok te ftab v (TSlice el) eq_refl Hv) as [n ->]. cbn [lift].
+  destruct (length_ok te ftab nn v (TSlice el) eq_refl Hv) as [n ->]. cbn [lift].
   assert (Hbody : forall i s', res_ok tb (ev ((v, i) :: ctx) (EClosure acl body') s')).
   { intros i s'. rewrite sv_closure. apply (IHb _ _ _ Eb Hsb). constructor; [|exact Hc]. split; [eauto|exact Hv]. }
   assert (Helem : forall i, out_ok (fun r => has_ty r el) (p_fetch v (vint i) false)).
-  { intros i. exact (fetch_slice te ftab v (vint i) el KInt false Hv (ty_vint _ _ i)). }
+  { intros i. exact (fetch_slice te ftab nn v (vint i) el KInt false Hv (ty_vint _ _ _ i)). }
   unfold closure_rule in Eru. cbn [closure_out is_interface dk dereference kind_of_ty] in Eru.
   destruct b; try discriminate Hb; cbn [sc_closure] in Hsc; cbn [builtin_body].
   - apply s_bool_inv in Hsc. subst tb. cbn in Eru. inversion Eru; subst t. apply all_loop_ok. exact Hbody.
@@ -1531,7 +1599,7 @@ Proof.
   - apply s_bool_inv in Hsc. subst tb. cbn in Eru. inversion Eru; subst t. apply any_loop_ok. exact Hbody.
   - apply s_bool_inv in Hsc. subst tb. cbn in Eru. inversion Eru; subst t. apply count_loop_ok; [exact Hbody|].
     intros cnt s2.
-    pose proof (equal_pair te ftab (vint cnt) (vint 1) (TNum KInt) (TNum KInt) eq_refl (ty_vint _ _ cnt) (ty_vint _ _ 1%Z)) as P.
+    pose proof (equal_pair te ftab nn (vint cnt) (vint 1) (TNum KInt) (TNum KInt) eq_refl (ty_vint _ _ _ cnt) (ty_vint _ _ _ 1%Z)) as P.
     destruct (p_equal (vint cnt) (vint 1)) as [r|er]; cbn; [|exact P]. destruct P as [b ->]. apply ty_bool.
   - apply andb_prop in Hsc. destruct Hsc as [H1 H2]. apply s_bool_inv in H1. apply s_iface_inv in H2. subst tb el.
     cbn in Eru. inversion Eru; subst t.
@@ -1556,8 +1624,8 @@ Lemma int_const_lit l pin z : (s_num pin || s_iface pin) = true ->
 Proof.
   destruct pin; try discriminate; intros _; cbn [kind_of_ty lit_kind]; unfold int_const; cbn [akind].
   - destruct (is_float k) eqn:E.
-    + apply (ty_num _ _ (NFlt k _)). exact E.
-    + apply (ty_num _ _ (NInt k _)). cbn. rewrite E. reflexivity.
+    + apply (ty_num _ _ _ (NFlt k _)). exact E.
+    + apply (ty_num _ _ _ (NInt k _)). cbn. rewrite E. reflexivity.
   - apply ty_vint.
 Qed.
 
@@ -1569,7 +1637,7 @@ Qed.
 
 Lemma neg_ok v k l0 s0 : has_ty v (TNum k) -> res_ok (TNum k) (lift l0 s0 (p_negate v) (fun r => Done r s0)).
 Proof.
-  intros Hv. destruct (inv_num _ _ _ _ Hv) as (n & -> & Kn & Sn). cbn.
+  intros Hv. destruct (inv_num _ _ _ _ _ Hv) as (n & -> & Kn & Sn). cbn.
   replace k with (num_kind (go_neg n)) by (destruct n; exact Kn). apply ty_num. destruct n; exact Sn.
 Qed.
 
@@ -1612,7 +1680,7 @@ Definition sc_args (cols : list ty) : (nat -> ty) -> nat -> list expr -> bool :=
   fix sargs (pt : nat -> ty) (i : nat) (args : list expr) {struct args} : bool :=
     match args with
     | [] => true
-    | a :: r => scope c cols a && sc_arg a (tyof c cols a) (pt i) && sargs pt (S i) r
+    | a :: r => scope c nn cols a && sc_arg a (tyof c cols a) (pt i) && sargs pt (S i) r
     end.
 
 Lemma has_ty_weaken v t p : has_ty v t -> assignable t p = true -> has_ty v p.
@@ -1772,14 +1840,14 @@ Lemma call_ok id ins v o recv vs l s fastflag : ftab id = Some (TFunc ins v [o])
   (fastflag = true -> fast_sig (TFunc ins v [o]) false = true) -> args_ok ins v vs = true ->
   res_ok o (do_call fe l fastflag id recv vs s).
 Proof.
-  intros Hf Hfast Hargs. unfold do_call. rewrite (fo_sig _ _ _ Hfe id ins v o Hf). cbn [s_fast s_ins s_variadic s_nout].
+  intros Hf Hfast Hargs. unfold do_call. rewrite (fo_sig _ _ _ _ Hfe id ins v o Hf). cbn [s_fast s_ins s_variadic s_nout].
   destruct fastflag.
   - rewrite (Hfast eq_refl). destruct (fn_run fe id recv vs) as [r|er] eqn:E; cbn.
-    + exact (fo_res _ _ _ Hfe id ins v o recv vs r Hf E).
-    + exact (fo_err _ _ _ Hfe id recv vs er E).
+    + exact (fo_res _ _ _ _ Hfe id ins v o recv vs r Hf E).
+    + exact (fo_err _ _ _ _ Hfe id recv vs er E).
   - rewrite Hargs. destruct (fn_run fe id recv vs) as [r|er] eqn:E; cbn.
-    + exact (fo_res _ _ _ Hfe id ins v o recv vs r Hf E).
-    + exact (fo_err _ _ _ Hfe id recv vs er E).
+    + exact (fo_res _ _ _ _ Hfe id ins v o recv vs r Hf E).
+    + exact (fo_err _ _ _ _ Hfe id recv vs er E).
 Qed.
 
 Lemma vals_rel_ext pt pt' vs : (forall j, pt j = pt' j) -> forall i, vals_rel pt i vs -> vals_rel pt' i vs.
@@ -1804,24 +1872,24 @@ Lemma env_callee name tg ins v o :
   exists id, Prim.fetch_fn fe env name = Ok id /\ ftab id = Some (TFunc (if tg_method tg then tl ins else ins) v [o]).
 Proof.
   intros Hl Hty Ha Hsig.
-  destruct (eo_table _ _ _ _ _ _ Henv) as (tb & Htb & Hc).
-  destruct (eo_val _ _ _ _ _ _ Henv) as (p & fields & Eenv & HT). pose proof (eo_wf _ _ _ _ _ _ Henv) as Hw.
+  destruct (eo_table _ _ _ _ _ _ _ Henv) as (tb & Htb & Hc).
+  destruct (eo_val _ _ _ _ _ _ _ Henv) as (p & fields & Eenv & HT). pose proof (eo_wf _ _ _ _ _ _ _ Henv) as Hw.
   rewrite Eenv in Hw. unfold lookup_name in Hl. rewrite Htb in Hl.
   pose proof Hl as Hg. rewrite (struct_table_get te perm Hperm Hwf T sn tb name env_T Hc) in Hg.
   destruct (method_by_name te T name) as [mt|] eqn:Hm.
   - inversion Hg; subst tg. cbn [tg_ty tg_method method_tag] in *. subst mt.
-    rewrite HT in Hm. destruct (fo_meth _ _ _ Hfe sn p name _ Hm) as (id & Hfm & Hft).
+    rewrite HT in Hm. destruct (fo_meth _ _ _ _ Hfe sn p name _ Hm) as (id & Hfm & Hft).
     destruct (sig_norm _ _ _ Hsig) as (_ & _ & _ & _ & Hst). rewrite (Hst eq_refl) in Hft.
     exists id. split; [|exact Hft]. rewrite Eenv. unfold Prim.fetch_fn. cbn [type_name_of]. rewrite Hfm. reflexivity.
   - pose proof (ffs_tag_no_method _ _ _ _ Hg) as Hnm. rewrite Hnm.
     destruct (table_field tb name tg Htb Hc Hl Ha Hnm) as [pth R]. rewrite Hty in R.
-    destruct (struct_member _ _ _ _ _ _ _ _ Hw R) as (x & Ex & Hx). destruct (inv_func _ _ _ _ _ _ Hx) as (id & -> & Hft).
-    rewrite HT in Hm. pose proof (fo_nometh _ _ _ Hfe sn p name Hm) as Hfm.
+    destruct (struct_member _ _ _ _ _ _ _ _ _ Hw R) as (x & Ex & Hx). destruct (inv_func _ _ _ _ _ _ _ Hx) as (id & -> & Hft).
+    rewrite HT in Hm. pose proof (fo_nometh _ _ _ _ Hfe sn p name Hm) as Hfm.
     exists id. split; [|exact Hft]. rewrite Eenv. unfold Prim.fetch_fn. cbn [type_name_of]. rewrite Hfm, Ex. reflexivity.
 Qed.
 
 Lemma scope_function cols a name args fast :
-  scope c cols (EFunction a name args fast) =
+  scope c nn cols (EFunction a name args fast) =
   negb fast &&
   match lookup_name c name with
   | Some tg =>
@@ -1834,15 +1902,18 @@ Lemma scope_function cols a name args fast :
   end.
 Proof. reflexivity. Qed.
 
+Definition sc_meth (cols : list ty) (t : ty) (name : string) (args : list expr) : bool :=
+  match method_by_name te t name with
+  | Some (TFunc ins v [o]) => sc_sig ins v true && sc_args cols (param_ty ins v true) 0%nat args
+  | _ => false
+  end.
+
 Lemma scope_method cols a x name args ns :
-  scope c cols (EMethod a x name args ns) =
-  scope c cols x &&
+  scope c nn cols (EMethod a x name args ns) =
+  scope c nn cols x &&
   match tyof c cols x with
-  | TStruct sn' =>
-      match method_by_name te (TStruct sn') name with
-      | Some (TFunc ins v [o]) => sc_sig ins v true && sc_args cols (param_ty ins v true) 0%nat args
-      | _ => false
-      end
+  | TStruct sn' => sc_meth cols (TStruct sn') name args
+  | TPtr (TStruct sn') => nn && sc_meth cols (TPtr (TStruct sn')) name args
   | _ => false
   end.
 Proof. reflexivity. Qed.
@@ -1890,25 +1961,35 @@ Proof.
   intros IHx HF cols t e' H Hs ctx Hc s. rewrite visit_method in H. rewrite scope_method in Hs.
   destruct (visit c cols x None) as [[tx x'] st1] eqn:Ex.
   unfold tyof in Hs. rewrite Ex in Hs. cbn [fst] in Hs. apply andb_prop in Hs. destruct Hs as [Hsx Hs].
-  destruct tx as [| | | | | | |sn'| | | |]; try discriminate.
-  destruct (method_by_name te (TStruct sn') name) as [mt|] eqn:Hm; [|discriminate].
+  (* the receiver is T or *T of a struct; p tells which *)
+  assert (exists sn' p, tx = recv_ty sn' p /\ (p = true -> nn = true) /\ sc_meth cols tx name args = true)
+    as (sn' & p & -> & Hp & Hsm).
+  { destruct tx as [| | | | | | |sn'|tp| | |]; try discriminate.
+    - exists sn', false. repeat split; [discriminate|exact Hs].
+    - destruct tp as [| | | | | | |sn'| | | |]; try discriminate. apply andb_prop in Hs. destruct Hs as [Hn Hs].
+      exists sn', true. repeat split; [intros _; exact Hn|exact Hs]. }
+  unfold sc_meth in Hsm.
+  destruct (method_by_name te (recv_ty sn' p) name) as [mt|] eqn:Hm; [|discriminate].
   destruct mt as [| | | | | | | | |ins v outs| |]; try discriminate.
   destruct outs as [|o [|o2 outs]]; try discriminate.
-  apply andb_prop in Hs. destruct Hs as [Hsig Hsa].
-  assert (method_callee c (TStruct sn') name = Some (TFunc ins v [o], true)) as Emc.
-  { unfold method_callee, Checker.te, cfuel, Checker.te, fuel0. cbn [method_type]. rewrite Hm. reflexivity. }
+  apply andb_prop in Hsm. destruct Hsm as [Hsig Hsa].
+  assert (method_callee c (recv_ty sn' p) name = Some (TFunc ins v [o], true)) as Emc.
+  { unfold method_callee, Checker.te, cfuel, Checker.te, fuel0. destruct p; cbn [recv_ty method_type] in *; rewrite Hm; reflexivity. }
   rewrite Emc in H.
   destruct (check_func (vargs c cols) (TFunc ins v [o]) true (aloc a) args st1) as [[t' args'] st2] eqn:Ecf.
   inversion H; subst. pose proof (check_func_none _ _ _ _ _ _ _ _ _ Ecf). subst st1.
   destruct (check_func_inv _ _ _ _ _ _ _ _ _ _ Ecf) as (Har & -> & R).
   cbn [settle set_ann]. rewrite sv_method. eapply res_bind; [exact (IHx _ _ _ Ex Hsx ctx Hc s)|]. intros vx s1 Hvx.
-  destruct (inv_struct _ _ _ _ Hvx) as [fields ->].
-  destruct (fo_meth _ _ _ Hfe sn' false name _ Hm) as (id & Hfm & Hft).
+  assert (exists fields, vx = VStruct sn' p fields) as [fields ->].
+  { destruct p; cbn [recv_ty] in Hvx.
+    - destruct (inv_ptr_struct _ _ _ _ _ Hvx) as [[fields ->]|[_ Hn]]; [eauto|]. rewrite (Hp eq_refl) in Hn. discriminate.
+    - destruct (inv_struct _ _ _ _ _ Hvx) as [fields ->]. eauto. }
+  destruct (fo_meth _ _ _ _ Hfe sn' p name _ Hm) as (id & Hfm & Hft).
   destruct (sig_norm _ _ _ Hsig) as (_ & _ & _ & _ & Hst). rewrite (Hst eq_refl) in Hft.
-  assert (Ef : Prim.fetch_fn fe (VStruct sn' false fields) name = Ok id).
+  assert (Ef : Prim.fetch_fn fe (VStruct sn' p fields) name = Ok id).
   { unfold Prim.fetch_fn. cbn [type_name_of]. rewrite Hfm. reflexivity. }
   assert (G : res_ok o (ev_list fe cfg env ctx args' s1
-                (fun vs s2 => do_call fe (aloc a) false id (VStruct sn' false fields) vs s2))).
+                (fun vs s2 => do_call fe (aloc a) false id (VStruct sn' p fields) vs s2))).
   { eapply finish_call; eauto. discriminate. }
   destruct ns; rewrite Ef; exact G.
 Qed.
@@ -1927,7 +2008,7 @@ Qed.
 Lemma P_sound l : Forall P_all l -> Forall sound_at l.
 Proof. intros H. eapply Forall_impl; [|exact H]. intros x [Hx _]. exact Hx. Qed.
 
-Lemma out_of_scope e : (forall cols, scope c cols e = false) -> sound_at e.
+Lemma out_of_scope e : (forall cols, scope c nn cols e = false) -> sound_at e.
 Proof. intros H cols t e' _ Hs. rewrite H in Hs. discriminate. Qed.
 
 Lemma sound_all : forall e, P_all e.
@@ -1982,7 +2063,7 @@ Proof.
 Qed.
 
 Theorem sound_partial e t e' :
-  check c e = (t, e', None) -> in_scope c e = true ->
+  check c e = (t, e', None) -> in_scope c nn e = true ->
   forall s, res_ok t (ev [] e' s).
 Proof.
   unfold check, in_scope. destruct (visit c [] e None) as [[t0 e0] st] eqn:Ev. intros H Hs s.
@@ -2011,7 +2092,7 @@ Definition cast_post (k : rkind) (v : value) : Prop :=
   end.
 
 Theorem cast_kind e t e' k :
-  check c e = (t, e', None) -> in_scope c e = true -> cc_expect c = Some k -> cast_scope k t = true ->
+  check c e = (t, e', None) -> in_scope c nn e = true -> cc_expect c = Some k -> cast_scope k t = true ->
   match run_ref fe cfg env (cast_of (Some k)) e' with
   | Done v _ => cast_post k v
   | Stop er _ _ => is_type_err er = false
@@ -2025,13 +2106,13 @@ Proof.
   destruct k as [| |k0| | | | | | | |]; cbn [cast_of cast_scope cast_post] in *; try exact I.
   - (* AsBool *)
     apply negb_true_iff in Hc. cbn in Hex. destruct (kind_of_ty t) eqn:Kt; try discriminate.
-    rewrite (kind_bool_plain t Kt Hc) in R. exact (inv_bool _ _ _ R).
+    rewrite (kind_bool_plain t Kt Hc) in R. exact (inv_bool _ _ _ _ R).
   - destruct k0; cbn [cast_of cast_scope cast_post] in *; try exact I.
     + (* AsInt64 *)
-      destruct (s_num_inv _ Hc) as [kt ->]. destruct (inv_num _ _ _ _ R) as (n & -> & _ & _).
+      destruct (s_num_inv _ Hc) as [kt ->]. destruct (inv_num _ _ _ _ _ R) as (n & -> & _ & _).
       pose proof (to_int64_ok n) as P. destruct (to_int64 (VNum n)) as [r|er]; cbn in *; exact P.
     + (* AsFloat64 *)
-      destruct (s_num_inv _ Hc) as [kt ->]. destruct (inv_num _ _ _ _ R) as (n & -> & _ & _).
+      destruct (s_num_inv _ Hc) as [kt ->]. destruct (inv_num _ _ _ _ _ R) as (n & -> & _ & _).
       pose proof (to_float64_ok n) as P. destruct (to_float64 (VNum n)) as [r|er]; cbn in *; [eauto|exact P].
 Qed.
 End Main.
@@ -2134,7 +2215,7 @@ Proof. intros l. apply Permutation_refl. Qed.
 Lemma te_wf : wf_tenv te = true.
 Proof. vm_compute. reflexivity. Qed.
 
-Lemma inner_wf : vwf te ftab inner.
+Lemma inner_wf nn : vwf te ftab nn inner.
 Proof.
   apply vwf_struct. split.
   - repeat (apply Forall_cons; [split; cbn [fst snd]|]); try apply Forall_nil.
@@ -2144,18 +2225,18 @@ Proof.
     cbn in Hin. repeat (destruct Hin as [<-|Hin]; [cbn; discriminate|]). destruct Hin.
 Qed.
 
-Lemma env_wf : vwf te ftab env.
+Lemma env_wf : vwf te ftab false env.
 Proof.
   apply vwf_struct. split.
   - repeat (apply Forall_cons; [split; cbn [fst snd]|]); try apply Forall_nil;
       try (intros pth ft R; vm_compute in R; inversion R; subst; first [right; reflexivity | left; reflexivity]).
-    all: try exact inner_wf.
+    all: try exact (inner_wf false).
     all: cbn; repeat split; auto; first [right; reflexivity | left; reflexivity].
   - intros name pth ft R. destruct (flat_resolve te "Env" name pth ft true eq_refl R) as (f & Hin & <- & _ & _).
     cbn in Hin. repeat (destruct Hin as [<-|Hin]; [cbn; discriminate|]). destruct Hin.
 Qed.
 
-Lemma env_is_ok k : env_ok (cc k) perm_id ftab (TStruct "Env") "Env" env.
+Lemma env_is_ok k : env_ok (cc k) perm_id ftab false (TStruct "Env") "Env" env.
 Proof.
   constructor.
   - reflexivity.
@@ -2164,7 +2245,7 @@ Proof.
   - exact env_wf.
 Qed.
 
-Lemma fe_ok : fenv_ok te ftab fe.
+Lemma fe_ok nn : fenv_ok te ftab nn fe.
 Proof.
   constructor.
   - intros id ins v o H. cbn [fn_sig fe]. unfold sig. rewrite H. reflexivity.
@@ -2227,7 +2308,7 @@ Definition ex_literals : expr :=
                EPair a0 (EStr a0 "n") (EBuiltin a0 BiLen [EBuiltin a0 BiFilter [id_ "AA"; EClosure a0 (EBool a0 true)]])].
 
 Definition accepted_in_scope (e : expr) (t : ty) (v : value) : Prop :=
-  in_scope c e = true /\ fst (fst (check c e)) = t /\ snd (check c e) = None /\
+  in_scope c false e = true /\ fst (fst (check c e)) = t /\ snd (check c e) = None /\
   exists s, eval fe cfg env [] (snd (fst (check c e))) rs0 = Done v s.
 
 Lemma ex_mixed_ok : accepted_in_scope ex_mixed tint (vint 2).
@@ -2246,19 +2327,69 @@ Proof. unfold accepted_in_scope. vm_compute. repeat split. eexists. reflexivity.
 
 (* the theorem applies to the examples: all its hypotheses hold of this universe *)
 Lemma sound_partial_applies e t e' :
-  check c e = (t, e', None) -> in_scope c e = true -> forall s, res_ok te ftab t (eval fe cfg env [] e' s).
-Proof. exact (sound_partial c perm_id perm_ok te_wf ftab fe cfg env (TStruct "Env") "Env" eq_refl (env_is_ok None) fe_ok e t e'). Qed.
+  check c e = (t, e', None) -> in_scope c false e = true -> forall s, res_ok te ftab false t (eval fe cfg env [] e' s).
+Proof. exact (sound_partial c perm_id perm_ok te_wf ftab false fe cfg env (TStruct "Env") "Env" eq_refl (env_is_ok None) (fe_ok false) e t e'). Qed.
 
 (* AsInt64 on ex_mixed: the run yields an int64 *)
 Lemma ex_cast_ok :
-  in_scope (cc (Some (RKNum KInt64))) ex_mixed = true /\ snd (check (cc (Some (RKNum KInt64))) ex_mixed) = None /\
+  in_scope (cc (Some (RKNum KInt64))) false ex_mixed = true /\ snd (check (cc (Some (RKNum KInt64))) ex_mixed) = None /\
   cast_scope (RKNum KInt64) (fst (fst (check (cc (Some (RKNum KInt64))) ex_mixed))) = true /\
   exists s, run_ref fe cfg env CastInt64 (snd (fst (check (cc (Some (RKNum KInt64))) ex_mixed))) = Done (VNum (NInt KInt64 2)) s.
 Proof. vm_compute. repeat split. eexists. reflexivity. Qed.
 
+
+(* the same environment with P pointing to an Inner: no nil pointer to a struct (nn = true) *)
+Definition inner_p : value := VStruct "Inner" true [("X", vint 9)].
+Definition env2 : value :=
+  match env with
+  | VStruct n p fs => VStruct n p (map (fun q => if String.eqb (fst q) "P" then ("P", inner_p) else q) fs)
+  | v => v
+  end.
+
+Lemma inner_p_wf nn : vwf te ftab nn inner_p.
+Proof.
+  apply vwf_struct. split.
+  - repeat (apply Forall_cons; [split; cbn [fst snd]|]); try apply Forall_nil.
+    + reflexivity.
+    + intros pth ft R; vm_compute in R; inversion R; subst; right; reflexivity.
+  - intros name pth ft R. destruct (flat_resolve te "Inner" name pth ft true eq_refl R) as (f & Hin & <- & _ & _).
+    cbn in Hin. repeat (destruct Hin as [<-|Hin]; [cbn; discriminate|]). destruct Hin.
+Qed.
+
+Lemma env2_wf : vwf te ftab true env2.
+Proof.
+  apply vwf_struct. split.
+  - repeat (apply Forall_cons; [split; cbn [fst snd]|]); try apply Forall_nil;
+      try (intros pth ft R; vm_compute in R; inversion R; subst; first [right; reflexivity | left; reflexivity]).
+    all: try exact (inner_wf true).
+    all: try exact (inner_p_wf true).
+    all: cbn; repeat split; auto; first [right; reflexivity | left; reflexivity].
+  - intros name pth ft R. destruct (flat_resolve te "Env" name pth ft true eq_refl R) as (f & Hin & <- & _ & _).
+    cbn in Hin. repeat (destruct Hin as [<-|Hin]; [cbn; discriminate|]). destruct Hin.
+Qed.
+
+Lemma env2_is_ok k : env_ok (cc k) perm_id ftab true (TStruct "Env") "Env" env2.
+Proof.
+  constructor.
+  - reflexivity.
+  - exists tb. split; [reflexivity|]. vm_compute. reflexivity.
+  - exists false, (match env2 with VStruct _ _ fs => fs | _ => [] end). split; reflexivity.
+  - exact env2_wf.
+Qed.
+
+(* P.X + P.Get() + MP... : member access and a method call through a *Inner receiver *)
+Definition ex_pointer : expr :=
+  EBinary a0 BAdd (EProperty a0 (id_ "P") "X" false) (EMethod a0 (id_ "P") "Get" [] false).
+
+Lemma ex_pointer_ok :
+  in_scope c true ex_pointer = true /\ in_scope c false ex_pointer = false /\
+  fst (fst (check c ex_pointer)) = tint /\ snd (check c ex_pointer) = None /\
+  exists s, eval fe cfg env2 [] (snd (fst (check c ex_pointer))) rs0 = Done (vint 18) s.
+Proof. vm_compute. repeat split. eexists. reflexivity. Qed.
+
 (* ---- the unrestricted statement is false of the model: one witness per recorded finding ---- *)
 Definition unsound_at (e : expr) : Prop :=
-  exists t e', check c e = (t, e', None) /\ ~ res_ok te ftab t (eval fe cfg env [] e' rs0).
+  exists t e', check c e = (t, e', None) /\ ~ res_ok te ftab false t (eval fe cfg env [] e' rs0).
 
 Ltac refute :=
   split; [vm_compute; reflexivity|];
@@ -2268,59 +2399,59 @@ Ltac refute :=
 
 (* FS(1): integer literal for a string input - C03-literal-retype *)
 Definition w_literal_retype : expr := EFunction a0 "FS" [EInt a0 1] false.
-Lemma refuted_literal_retype : in_scope c w_literal_retype = false /\ unsound_at w_literal_retype.
+Lemma refuted_literal_retype : in_scope c false w_literal_retype = false /\ unsound_at w_literal_retype.
 Proof. refute. Qed.
 
 (* M == 1 with type MyInt int - C03-named-int *)
 Definition w_named_int : expr := EBinary a0 BEq (id_ "M") (EInt a0 1).
-Lemma refuted_named_int : in_scope c w_named_int = false /\ unsound_at w_named_int.
+Lemma refuted_named_int : in_scope c false w_named_int = false /\ unsound_at w_named_int.
 Proof. refute. Qed.
 
 (* AI?.x - C03-nilsafe-on-slice *)
 Definition w_nilsafe_on_slice : expr := EProperty a0 (id_ "AI") "x" true.
-Lemma refuted_nilsafe_on_slice : in_scope c w_nilsafe_on_slice = false /\ unsound_at w_nilsafe_on_slice.
+Lemma refuted_nilsafe_on_slice : in_scope c false w_nilsafe_on_slice = false /\ unsound_at w_nilsafe_on_slice.
 Proof. refute. Qed.
 
 (* (B ? 1 : nil) + 1 - C03-cond-branch-type *)
 Definition w_cond_branch : expr := EBinary a0 BAdd (ECond a0 (id_ "B") (EInt a0 1) (ENil a0)) (EInt a0 1).
-Lemma refuted_cond_branch : in_scope c w_cond_branch = false /\ unsound_at w_cond_branch.
+Lemma refuted_cond_branch : in_scope c false w_cond_branch = false /\ unsound_at w_cond_branch.
 Proof. refute. Qed.
 
 (* AI["a"] - C03-index-key-type *)
 Definition w_index_key : expr := EIndex a0 (id_ "AI") (EStr a0 "a").
-Lemma refuted_index_key : in_scope c w_index_key = false /\ unsound_at w_index_key.
+Lemma refuted_index_key : in_scope c false w_index_key = false /\ unsound_at w_index_key.
 Proof. refute. Qed.
 
 (* MI[1:2] - C03-slice-of-map *)
 Definition w_slice_of_map : expr := ESlice a0 (id_ "MI") (Some (EInt a0 1)) (Some (EInt a0 2)).
-Lemma refuted_slice_of_map : in_scope c w_slice_of_map = false /\ unsound_at w_slice_of_map.
+Lemma refuted_slice_of_map : in_scope c false w_slice_of_map = false /\ unsound_at w_slice_of_map.
 Proof. refute. Qed.
 
 (* filter(AI, {# > 0}) is reported []int, the run yields []interface{} - C03-builtin-elem-type *)
 Definition w_builtin_elem : expr :=
   EBuiltin a0 BiFilter [id_ "AI"; EClosure a0 (EBinary a0 BGt (EPointer a0) (EInt a0 0))].
-Lemma refuted_builtin_elem : in_scope c w_builtin_elem = false /\ unsound_at w_builtin_elem.
+Lemma refuted_builtin_elem : in_scope c false w_builtin_elem = false /\ unsound_at w_builtin_elem.
 Proof. refute. Qed.
 
 (* PI + 1 with PI *int - C03-pointer-operand *)
 Definition w_pointer_operand : expr := EBinary a0 BAdd (id_ "PI") (EInt a0 1).
-Lemma refuted_pointer_operand : in_scope c w_pointer_operand = false /\ unsound_at w_pointer_operand.
+Lemma refuted_pointer_operand : in_scope c false w_pointer_operand = false /\ unsound_at w_pointer_operand.
 Proof. refute. Qed.
 
 (* {(1): 2} - C03-map-key-type *)
 Definition w_map_key : expr := Ast.EMap a0 [EPair a0 (EInt a0 1) (EInt a0 2)].
-Lemma refuted_map_key : in_scope c w_map_key = false /\ unsound_at w_map_key.
+Lemma refuted_map_key : in_scope c false w_map_key = false /\ unsound_at w_map_key.
 Proof. refute. Qed.
 
 (* Inc(nil) - C03-nil-argument *)
 Definition w_nil_argument : expr := EFunction a0 "Inc" [ENil a0] false.
-Lemma refuted_nil_argument : in_scope c w_nil_argument = false /\ unsound_at w_nil_argument.
+Lemma refuted_nil_argument : in_scope c false w_nil_argument = false /\ unsound_at w_nil_argument.
 Proof. refute. Qed.
 
 (* P.X with P a nil *Inner: fetch reports "cannot fetch X from *Inner", a message of the type
    class, for a nil pointer (not among the recorded findings: see the report) *)
 Definition w_nil_struct_pointer : expr := EProperty a0 (id_ "P") "X" false.
-Lemma refuted_nil_struct_pointer : in_scope c w_nil_struct_pointer = false /\ unsound_at w_nil_struct_pointer.
+Lemma refuted_nil_struct_pointer : in_scope c false w_nil_struct_pointer = false /\ unsound_at w_nil_struct_pointer.
 Proof. refute. Qed.
 End SWit.
 
@@ -2328,13 +2459,413 @@ End SWit.
 Definition sound_full_statement : Prop :=
   forall (c : cconfig) (perm : TypesTable.table -> TypesTable.table),
   (forall l, Permutation (perm l) l) -> wf_tenv (cc_te c) = true ->
-  forall ftab fe cfg env T sn, c_mapenv cfg = false -> env_ok c perm ftab T sn env -> fenv_ok (cc_te c) ftab fe ->
+  forall ftab nn fe cfg env T sn, c_mapenv cfg = false -> env_ok c perm ftab nn T sn env -> fenv_ok (cc_te c) ftab nn fe ->
   forall e t e', check c e = (t, e', None) ->
-  forall s, res_ok (cc_te c) ftab t (eval fe cfg env [] e' s).
+  forall s, res_ok (cc_te c) ftab nn t (eval fe cfg env [] e' s).
 
 Theorem sound_full_refuted : ~ sound_full_statement.
 Proof.
   intros F. destruct SWit.refuted_named_int as [_ (t & e' & Hc & Hn)]. apply Hn.
-  exact (F SWit.c perm_id SWit.perm_ok SWit.te_wf SWit.ftab SWit.fe SWit.cfg SWit.env (TStruct "Env") "Env" eq_refl
-           (SWit.env_is_ok None) SWit.fe_ok _ _ _ Hc rs0).
+  exact (F SWit.c perm_id SWit.perm_ok SWit.te_wf SWit.ftab false SWit.fe SWit.cfg SWit.env (TStruct "Env") "Env" eq_refl
+           (SWit.env_is_ok None) (SWit.fe_ok false) _ _ _ Hc rs0).
 Qed.
+
+(* ================================================================== Part 8 *)
+(* WHERE the error is reported: the first fault in visiting order, at the node (or, for the rules
+   the checker reports at an operand, at that operand) whose rule is violated.
+   root_fault / vty / arg_bad are the reference definitions of Ty/CheckProofs.v. *)
+Section Loc.
+Variable c : cconfig.
+Notation vty := (vty c).
+
+(* the argument a call is refused at *)
+Fixpoint bad_arg_loc (cols : list ty) (pt : nat -> ty) (i : nat) (args : list expr) : loc :=
+  match args with
+  | [] => noloc
+  | a :: r =>
+      match vty cols a with
+      | Some t => if arg_bad a t (pt i) then loc_of a else bad_arg_loc cols pt (S i) r
+      | None => noloc
+      end
+  end.
+
+Definition call_fault_loc (cols : list ty) (fn : ty) (m : bool) (here : loc) (args : list expr) : loc :=
+  match fn with
+  | TFunc ins variadic [o] =>
+      match arity_rule ins variadic m (List.length args) with
+      | Some _ => here
+      | None => bad_arg_loc cols (param_ty ins variadic m) 0 args
+      end
+  | _ => here
+  end.
+
+Definition opt_loc (o : option expr) : loc := match o with Some x => loc_of x | None => noloc end.
+
+(* the location v.error is called with for a root fault of e *)
+Definition fault_loc (cols : list ty) (e : expr) : loc :=
+  match e with
+  | ESlice _ x f u =>
+      match vty cols x with
+      | Some t =>
+          if sliceable t then
+            match f with
+            | Some ff =>
+                match vty cols ff with
+                | Some tf => if negb (is_integer tf) then loc_of ff else opt_loc u
+                | None => noloc
+                end
+            | None => opt_loc u
+            end
+          else loc_of e
+      | None => noloc
+      end
+  | EMethod _ x n args _ =>
+      match vty cols x with
+      | Some t =>
+          match method_callee c t n with
+          | None => loc_of e
+          | Some (fn, m) => call_fault_loc cols fn m (loc_of e) args
+          end
+      | None => noloc
+      end
+  | EFunction _ n args _ =>
+      match function_callee c n with
+      | None => loc_of e
+      | Some (fn, m) => call_fault_loc cols fn m (loc_of e) args
+      end
+  | EBuiltin _ b args =>
+      match b, args with
+      | BiUnknown _, _ => loc_of e
+      | BiLen, _ => loc_of e
+      | _, x :: cl :: _ =>
+          match vty cols x with
+          | Some t => if is_array t then loc_of cl else loc_of x
+          | None => noloc
+          end
+      | _, _ => loc_of e
+      end
+  | ECond _ cnd _ _ => loc_of cnd
+  | _ => loc_of e
+  end.
+
+Definition clean (cols : list ty) (x : expr) : Prop := exists t, vty cols x = Some t.
+
+(* the arguments before the faulty one are visited without error and pass the assignability test *)
+Fixpoint args_pass (cols : list ty) (pt : nat -> ty) (i : nat) (pre : list expr) : Prop :=
+  match pre with
+  | [] => True
+  | a :: r =>
+      (exists t a1, visit c cols a None = (t, a1, None) /\ snd (arg_rule a a1 t (pt i)) = true)
+      /\ args_pass cols pt (S i) r
+  end.
+
+(* x is a sub-expression of e that the visitor reaches with no error recorded so far *)
+Inductive step (cols : list ty) : expr -> list ty -> expr -> Prop :=
+| S_unary a op x : step cols (EUnary a op x) cols x
+| S_bin_l a op l r : step cols (EBinary a op l r) cols l
+| S_bin_r a op l r tl : vty cols l = Some tl -> step cols (EBinary a op l r) cols r
+| S_mat_l a re l r : step cols (EMatches a re l r) cols l
+| S_mat_r a re l r tl : vty cols l = Some tl -> step cols (EMatches a re l r) cols r
+| S_prop a x n ns : step cols (EProperty a x n ns) cols x
+| S_idx_x a x i : step cols (EIndex a x i) cols x
+| S_idx_i a x i t : vty cols x = Some t -> step cols (EIndex a x i) cols i
+| S_sl_x a x f u : step cols (ESlice a x f u) cols x
+| S_sl_f a x f u t : vty cols x = Some t -> sliceable t = true -> step cols (ESlice a x (Some f) u) cols f
+| S_sl_u0 a x u t : vty cols x = Some t -> sliceable t = true -> step cols (ESlice a x None (Some u)) cols u
+| S_sl_u a x f u t tf : vty cols x = Some t -> sliceable t = true -> vty cols f = Some tf -> is_integer tf = true ->
+    step cols (ESlice a x (Some f) (Some u)) cols u
+| S_meth_x a x n args ns : step cols (EMethod a x n args ns) cols x
+| S_meth_arg a x n ns t ins v o m pre y post :
+    vty cols x = Some t -> method_callee c t n = Some (TFunc ins v [o], m) ->
+    arity_rule ins v m (List.length (pre ++ y :: post)) = None -> args_pass cols (param_ty ins v m) 0 pre ->
+    step cols (EMethod a x n (pre ++ y :: post) ns) cols y
+| S_fun_arg a n f ins v o m pre y post :
+    function_callee c n = Some (TFunc ins v [o], m) ->
+    arity_rule ins v m (List.length (pre ++ y :: post)) = None -> args_pass cols (param_ty ins v m) 0 pre ->
+    step cols (EFunction a n (pre ++ y :: post) f) cols y
+| S_bi_len a x rest : step cols (EBuiltin a BiLen (x :: rest)) cols x
+| S_bi_x a b x cl rest : is_closure_builtin b = true -> step cols (EBuiltin a b (x :: cl :: rest)) cols x
+| S_bi_cl a b x cl rest t : is_closure_builtin b = true -> vty cols x = Some t -> is_array t = true ->
+    step cols (EBuiltin a b (x :: cl :: rest)) (t :: cols) cl
+| S_closure a x : step cols (EClosure a x) cols x
+| S_cond_c a cnd x y : step cols (ECond a cnd x y) cols cnd
+| S_cond_x a cnd x y tc : vty cols cnd = Some tc -> is_bool tc = true -> step cols (ECond a cnd x y) cols x
+| S_cond_y a cnd x y tc t1 : vty cols cnd = Some tc -> is_bool tc = true -> vty cols x = Some t1 ->
+    step cols (ECond a cnd x y) cols y
+| S_arr a pre y post : Forall (clean cols) pre -> step cols (EArray a (pre ++ y :: post)) cols y
+| S_map a pre y post : Forall (clean cols) pre -> step cols (Ast.EMap a (pre ++ y :: post)) cols y
+| S_pair_k a k v : step cols (EPair a k v) cols k
+| S_pair_v a k v tk : vty cols k = Some tk -> step cols (EPair a k v) cols v.
+
+(* the first fault in visiting order, with the location it is reported at *)
+Inductive first_fault : list ty -> expr -> loc -> Prop :=
+| FF_root cols e : root_fault c cols e = true -> first_fault cols e (fault_loc cols e)
+| FF_step cols e cols' x l : step cols e cols' x -> first_fault cols' x l -> first_fault cols e l.
+
+(* ---- a root fault is reported at fault_loc ---- *)
+Ltac vS :=
+  match goal with
+  | |- context [visit c ?cols ?x (Some ?y)] =>
+      let E := fresh "E" in
+      pose proof (visit_sticky c x cols y) as E;
+      destruct (visit c cols x (Some y)) as [[? ?] ?]; cbn [snd] in E; subst
+  end.
+Ltac eS :=
+  match goal with
+  | |- context [emit ?l ?r (Some ?y)] =>
+      let E := fresh "E" in
+      pose proof (emit_some l r y) as E;
+      destruct (emit l r (Some y)) as [? ?]; cbn [snd] in E; subst
+  end.
+Ltac ifS := match goal with |- context [if ?b then _ else _] => destruct b end.
+Ltac done := try (eexists; reflexivity).
+Ltac usev :=
+  repeat match goal with
+  | H : context [match vty ?cols ?x with _ => _ end] |- _ =>
+      let t := fresh "t" in let Hv := fresh "Hv" in let x' := fresh "x'" in let E := fresh "E" in
+      destruct (vty cols x) as [t|] eqn:Hv; [destruct (vty_some c _ _ _ Hv) as [x' E]; try rewrite E | try discriminate]
+  end.
+
+Lemma all_sticky l : Forall (sticky_at c) l.
+Proof. apply Forall_forall. intros z _. apply visit_sticky. Qed.
+
+Lemma args_fault_loc cols pt args : forall i, args_fault c cols pt i args = true ->
+  exists k, snd (fst (vargs c cols pt i args None)) = Some (bad_arg_loc cols pt i args, k).
+Proof.
+  induction args as [|a r IH]; intros i H; cbn [args_fault] in H; [discriminate|]. cbn [vargs bad_arg_loc].
+  destruct (vty cols a) as [t|] eqn:Hv; [|discriminate]. destruct (vty_some c _ _ _ Hv) as [a1 E]. rewrite E.
+  destruct (arg_bad a t (pt i)) eqn:HB.
+  - unfold arg_bad in HB. apply andb_prop in HB. destruct HB as [HB H4]. apply andb_prop in HB. destruct HB as [HB H3].
+    apply andb_prop in HB. destruct HB as [H1 H2]. unfold arg_rule.
+    apply negb_true_iff in H1, H2, H3. rewrite H1, H2, H4, H3. cbn. eexists; reflexivity.
+  - destruct (arg_rule a a1 t (pt i)) as [a2 ok] eqn:Ear. destruct ok.
+    + destruct (IH (S i) H) as [k Ek]. destruct (vargs c cols pt (S i) r None) as [[? ?] ?]. cbn in Ek. subst.
+      eexists; reflexivity.
+    + (* refused although not bad by the reference: impossible *)
+      exfalso. unfold arg_rule, arg_bad in *.
+      destruct (is_arith a); cbn in *.
+      * destruct (is_nil_ty (pt i)); [inversion Ear|].
+        rewrite assignable_self in Ear. cbn in Ear. inversion Ear.
+      * destruct (is_nil_ty t); cbn in *; [inversion Ear|].
+        destruct (rkind_eqb (kind_of_ty t) RKInterface); cbn in *; [rewrite andb_false_r in Ear; inversion Ear|].
+        destruct (assignable t (pt i)); cbn in *; [inversion Ear|discriminate].
+Qed.
+
+Lemma call_fault_located cols fn m l args : call_fault c cols fn m args = true ->
+  exists k, snd (check_func (vargs c cols) fn m l args None) = Some (call_fault_loc cols fn m l args, k).
+Proof.
+  unfold call_fault, check_func, call_fault_loc. destruct fn; try discriminate.
+  destruct outs as [|o [|o2 outs]]; try (intros; eexists; reflexivity).
+  destruct (arity_rule ins variadic m (List.length args)); [intros; eexists; reflexivity|].
+  intros H. destruct (args_fault_loc cols _ args 0%nat H) as [k E].
+  destruct (vargs c cols (param_ty ins variadic m) 0 args None) as [[? ?] ok]. cbn in E. subst. destruct ok; eexists; reflexivity.
+Qed.
+Lemma root_located cols e : root_fault c cols e = true ->
+  exists k, snd (visit c cols e None) = Some (fault_loc cols e, k).
+Proof.
+  intros HR. destruct e; cbn [root_fault] in HR; try discriminate; cbn [fault_loc].
+  - (* ident *) cbn [visit]. unfold df_ident in HR. unfold ident_rule.
+    destruct (cc_types c) as [tb|]; [|discriminate]. destruct (tget name tb) as [tg|].
+    + rewrite HR. done.
+    + apply andb_prop in HR. destruct HR as [H1 H2]. rewrite H1. apply negb_true_iff in H2. rewrite H2. done.
+  - (* unary *) cbn [visit]. usev. destruct (df_unary_rule _ _ HR) as [k Ek]. rewrite Ek. done.
+  - (* binary *) cbn [visit]. usev. apply andb_prop in HR. destruct HR as [H1 H2].
+    destruct (df_binary_rule _ _ _ H2) as [k Ek]. unfold binary_node_rule, overload.
+    unfold CheckProofs.no_overload in H1. destruct (Types.assoc (binop_str op) (cc_ops c)); [discriminate|]. rewrite Ek. done.
+  - (* matches *) cbn [visit]. usev. unfold matches_rule.
+    apply orb_prop in HR. destruct HR as [H|H]; apply na_str in H; rewrite H; rewrite ?andb_false_r; done.
+  - (* property *) cbn [visit]. usev. apply andb_prop in HR. destruct HR as [H1 H2]. apply negb_true_iff in H1. subst.
+    unfold property_rule. destruct (field_type (Checker.te c) (cfuel c) t name); try discriminate. done.
+  - (* index *) cbn [visit]. usev. unfold index_rule. destruct (index_type t); [|done].
+    apply na_int_str in HR. destruct HR as [H1 H2]. rewrite H1, H2. done.
+  - (* slice *) cbn [visit]. usev. destruct (sliceable t) eqn:HS; cbn [negb orb] in HR; [|done].
+    destruct from as [f|], to as [u|]; usev; cbn [opt_loc];
+      repeat match goal with
+      | H : (_ || _) = true |- _ => apply orb_prop in H; destruct H as [H|H]
+      | H : not_a c_int _ = true |- _ => apply na_int in H; rewrite H
+      end; cbn [negb]; done; try discriminate.
+    all: try (destruct (is_integer t0); cbn [negb]; done; usev; done).
+  - (* method *) rewrite visit_method. usev. destruct (method_callee c t name) as [[fn m]|].
+    + destruct (call_fault_located cols fn m (aloc a) args HR) as [y Ey].
+      destruct (check_func (vargs c cols) fn m (aloc a) args None) as [[? ?] ?]. cbn in Ey. subst. done.
+    + apply negb_true_iff in HR. subst. done.
+  - (* function *) rewrite visit_function. destruct (function_callee c name) as [[fn m]|].
+    + destruct (call_fault_located cols fn m (aloc a) args HR) as [y E].
+      destruct (check_func (vargs c cols) fn m (aloc a) args None) as [[? ?] ?]. cbn in E. subst. done.
+    + rewrite HR. done.
+  - (* builtin *)
+    destruct b; try (cbn [visit]; done; fail);
+    destruct args as [|x [|cl rest]]; try discriminate; cbn [visit]; usev;
+    try (rewrite (na_len _ HR); done; fail).
+    all: apply orb_prop in HR; destruct HR as [HR|HR]; [apply na_arr in HR; rewrite HR; done|].
+    all: cbn [is_pred_builtin andb] in HR; try discriminate.
+    all: destruct (is_array t); cbn [negb]; done.
+    all: destruct cl; cbn [body_of] in HR; try discriminate; cbn [visit]; usev.
+    all: apply andb_prop in HR; destruct HR as [H1 H2]; apply negb_true_iff in H1; rewrite H1.
+    all: unfold closure_rule; cbn [closure_out is_interface dk dereference kind_of_ty]; rewrite (na_bool _ H2); done.
+  - (* pointer *) cbn [visit]. destruct cols; [done|discriminate].
+  - (* cond *) cbn [visit]. usev. rewrite (na_bool _ HR). done.
+Qed.
+
+(* ---- the error of the sub-expression reached first is the error of the whole ---- *)
+Lemma vlist_prop cols pre y post e0 : Forall (clean cols) pre -> snd (visit c cols y None) = Some e0 ->
+  snd (vlist c cols (pre ++ y :: post) None) = Some e0.
+Proof.
+  intros HF Hy. induction HF as [|a r [t Ha] _ IH]; cbn [app vlist].
+  - destruct (visit c cols y None) as [[ty y'] st]. cbn [snd] in Hy. subst st.
+    pose proof (vlist_sticky c cols post (all_sticky post) e0) as St. destruct (vlist c cols post (Some e0)). exact St.
+  - destruct (vty_some c _ _ _ Ha) as [a' Ea]. rewrite Ea.
+    destruct (vlist c cols (r ++ y :: post) None). exact IH.
+Qed.
+
+Lemma vargs_prop cols pt pre y post e0 : forall i, args_pass cols pt i pre -> snd (visit c cols y None) = Some e0 ->
+  snd (fst (vargs c cols pt i (pre ++ y :: post) None)) = Some e0.
+Proof.
+  induction pre as [|a r IH]; intros i HP Hy; cbn [app vargs].
+  - destruct (visit c cols y None) as [[ty y'] st]. cbn [snd] in Hy. subst st.
+    destruct (arg_rule y y' ty (pt i)) as [a2 ok]. destruct ok; [|reflexivity].
+    pose proof (vargs_sticky c cols pt post (all_sticky post) (S i) e0) as St.
+    destruct (vargs c cols pt (S i) post (Some e0)) as [[? ?] ?]. exact St.
+  - cbn [args_pass] in HP. destruct HP as [(t & a1 & Ea & Hok) HP]. rewrite Ea.
+    destruct (arg_rule a a1 t (pt i)) as [a2 ok]. cbn [snd] in Hok. subst ok.
+    specialize (IH (S i) HP Hy). destruct (vargs c cols pt (S i) (r ++ y :: post) None) as [[? ?] ?]. exact IH.
+Qed.
+
+Lemma check_func_prop cols ins v o m l args e0 :
+  arity_rule ins v m (List.length args) = None ->
+  snd (fst (vargs c cols (param_ty ins v m) 0 args None)) = Some e0 ->
+  snd (check_func (vargs c cols) (TFunc ins v [o]) m l args None) = Some e0.
+Proof.
+  intros Ha Hv. unfold check_func. rewrite Ha.
+  destruct (vargs c cols (param_ty ins v m) 0 args None) as [[? ?] ok]. cbn in Hv. subst. destruct ok; reflexivity.
+Qed.
+
+Ltac use_clean H :=
+  let x' := fresh "x'" in let E := fresh "E" in destruct (vty_some c _ _ _ H) as [x' E]; rewrite E.
+Ltac target Hy :=
+  match type of Hy with
+  | snd (visit c ?cols ?x None) = Some ?y =>
+      destruct (visit c cols x None) as [[? ?] ?]; cbn [snd] in Hy; subst
+  end.
+Ltac rest := repeat first [vS | eS | ifS]; try reflexivity.
+
+Lemma step_prop cols e cols' x : step cols e cols' x ->
+  forall y, snd (visit c cols' x None) = Some y -> snd (visit c cols e None) = Some y.
+Proof.
+  intros HS y Hy. inversion HS; subst; clear HS.
+  - cbn [visit]. target Hy. rest.
+  - cbn [visit]. target Hy. rest.
+  - cbn [visit]. use_clean H. target Hy. rest.
+  - cbn [visit]. target Hy. rest.
+  - cbn [visit]. use_clean H. target Hy. rest.
+  - cbn [visit]. target Hy. rest.
+  - cbn [visit]. target Hy. rest.
+  - cbn [visit]. use_clean H. target Hy. rest.
+  - (* slice x *) cbn [visit]. target Hy. destruct f, u; rest.
+  - cbn [visit]. use_clean H. rewrite H0. target Hy. destruct u; rest.
+  - cbn [visit]. use_clean H. rewrite H0. target Hy. rest.
+  - cbn [visit]. use_clean H. rewrite H0. use_clean H1. rewrite H2. cbn [negb]. target Hy. rest.
+  - (* method receiver *) rewrite visit_method. target Hy.
+    match goal with |- context [method_callee c ?t ?n] => destruct (method_callee c t n) as [[fn m0]|] end.
+    + match goal with |- context [check_func ?a ?b ?cc ?d ?ee (Some ?yy)] =>
+        pose proof (check_func_sticky c cols' b cc d ee (all_sticky ee) yy) as St;
+        destruct (check_func a b cc d ee (Some yy)) as [[? ?] ?]; cbn in St; subst end. reflexivity.
+    + destruct ns; reflexivity.
+  - (* method argument *) rewrite visit_method. use_clean H. rewrite H0.
+    pose proof (check_func_prop cols' ins v o m (aloc a) _ y H1 (vargs_prop _ _ _ _ post _ _ H2 Hy)) as St.
+    destruct (check_func (vargs c cols') (TFunc ins v [o]) m (aloc a) (pre ++ x :: post) None) as [[? ?] ?]. cbn in St. subst. reflexivity.
+  - (* function argument *) rewrite visit_function. rewrite H.
+    pose proof (check_func_prop cols' ins v o m (aloc a) _ y H0 (vargs_prop _ _ _ _ post _ _ H1 Hy)) as St.
+    destruct (check_func (vargs c cols') (TFunc ins v [o]) m (aloc a) (pre ++ x :: post) None) as [[? ?] ?]. cbn in St. subst. reflexivity.
+  - cbn [visit]. target Hy. rest.
+  - destruct b; try discriminate; cbn [visit]; target Hy; rest.
+  - destruct b; try discriminate; cbn [visit]; use_clean H0; rewrite H1; cbn [negb]; target Hy; rest.
+  - cbn [visit]. target Hy. rest.
+  - cbn [visit]. target Hy. rest.
+  - cbn [visit]. use_clean H. rewrite H0. cbn [negb]. target Hy. rest.
+  - cbn [visit]. use_clean H. rewrite H0. cbn [negb]. use_clean H1. target Hy. rest.
+  - rewrite visit_array. pose proof (vlist_prop _ _ _ post _ H Hy) as St.
+    destruct (vlist c cols' (pre ++ x :: post) None). cbn in St. subst. reflexivity.
+  - rewrite visit_map. pose proof (vlist_prop _ _ _ post _ H Hy) as St.
+    destruct (vlist c cols' (pre ++ x :: post) None). cbn in St. subst. reflexivity.
+  - cbn [visit]. target Hy. rest.
+  - cbn [visit]. use_clean H. target Hy. rest.
+Qed.
+
+Theorem first_fault_located cols e l : first_fault cols e l -> exists k, snd (visit c cols e None) = Some (l, k).
+Proof.
+  induction 1 as [cols e HR|cols e cols' x l HS _ [k IH]].
+  - apply root_located. exact HR.
+  - exists k. eapply step_prop; eauto.
+Qed.
+
+(* checker.Check tests the result kind BEFORE it looks at the recorded error: under AsBool /
+   AsInt64 / AsFloat64 the error can be replaced by the expectation failure (no location) *)
+Theorem first_error_location e l : first_fault [] e l ->
+  exists k, snd (check c e) = Some (l, k) \/
+            (cc_expect c <> None /\ snd (check c e) = Some (noloc, CExpect)).
+Proof.
+  intros H. destruct (first_fault_located _ _ _ H) as [k E]. exists k. unfold check.
+  destruct (visit c [] e None) as [[t e'] st]. cbn [snd] in E. subst st.
+  destruct (cc_expect c) as [kx|]; [|left; reflexivity].
+  destruct (expect_ok kx t); [left; reflexivity|right; split; [discriminate|reflexivity]].
+Qed.
+
+Corollary first_error_location_plain e l : cc_expect c = None -> first_fault [] e l ->
+  exists k, snd (check c e) = Some (l, k).
+Proof.
+  intros Hx H. destruct (first_error_location e l H) as [k [E|[N _]]]; [eauto|congruence].
+Qed.
+
+(* first_fault refines the reference relation of C03_rejects: same faults, same sub-expression
+   positions, plus "nothing before it fails" *)
+Lemma step_child_at cols e cols' x : step cols e cols' x -> child_at c cols e cols' x.
+Proof.
+  intros H. inversion H; subst; try (econstructor; eauto; fail).
+  - eapply CA_meth_arg; eauto. apply in_or_app. right. left. reflexivity.
+  - eapply CA_fun_arg; eauto. apply in_or_app. right. left. reflexivity.
+  - apply CA_arr. apply in_or_app. right. left. reflexivity.
+  - apply CA_map. apply in_or_app. right. left. reflexivity.
+Qed.
+
+Lemma first_fault_ill_typed cols e l : first_fault cols e l -> ill_typed_ref c cols e.
+Proof.
+  induction 1 as [cols e HR|cols e cols' x l HS _ IH].
+  - apply IT_root. exact HR.
+  - eapply IT_sub; [apply step_child_at; exact HS|exact IH].
+Qed.
+End Loc.
+
+(* non-vacuity of first_error_location in the universe SWit *)
+Module LWit.
+Import SWit.
+Definition at_ (col : Z) : ann := at_loc (1%Z, col).
+
+(* I + S * 2 : the fault is the inner node `S * 2` at column 6 *)
+Definition inner : expr := EBinary (at_ 6) BMul (EIdent (at_ 4) "S" false) (EInt (at_ 8) 2).
+Definition e_inner : expr := EBinary (at_ 2) BAdd (EIdent (at_ 0) "I" false) inner.
+
+Lemma e_inner_fault : first_fault c [] e_inner (1%Z, 6%Z).
+Proof.
+  eapply FF_step; [apply (S_bin_r c [] (at_ 2) BAdd (EIdent (at_ 0) "I" false) inner tint); vm_compute; reflexivity|].
+  change (1%Z, 6%Z) with (fault_loc c [] inner). apply FF_root. vm_compute. reflexivity.
+Qed.
+
+Lemma e_inner_reported : snd (check c e_inner) = Some ((1%Z, 6%Z), CMismatch2).
+Proof. vm_compute. reflexivity. Qed.
+
+(* count(AI, {Inc(#, 1) > 0}) : too many arguments, reported at the call inside the closure *)
+Definition call2 : expr := EFunction (at_ 11) "Inc" [EPointer (at_ 15); EInt (at_ 18) 1] false.
+Definition e_closure : expr :=
+  EBuiltin (at_ 0) BiCount [EIdent (at_ 6) "AI" false; EClosure (at_ 10) (EBinary (at_ 21) BGt call2 (EInt (at_ 23) 0))].
+
+Lemma e_closure_fault : first_fault c [] e_closure (1%Z, 11%Z).
+Proof.
+  eapply FF_step; [apply (S_bi_cl c [] (at_ 0) BiCount (EIdent (at_ 6) "AI" false) _ [] (TSlice tint)); vm_compute; reflexivity|].
+  eapply FF_step; [apply S_closure|]. eapply FF_step; [apply S_bin_l|].
+  change (1%Z, 11%Z) with (fault_loc c [TSlice tint] call2). apply FF_root. vm_compute. reflexivity.
+Qed.
+
+Lemma e_closure_reported : snd (check c e_closure) = Some ((1%Z, 11%Z), CTooMany).
+Proof. vm_compute. reflexivity. Qed.
+End LWit.
